@@ -409,6 +409,10 @@ Proof.
   destruct (debug_asserts m && _); cbn [bind]; reflexivity.
 Qed.
 
+Lemma rsn_src_dep {A} (F : src -> rst -> res (A * rst)) :
+  (forall s, rscope_nat (fun r => F s r)) -> rscope_nat (fun r => F (r_src r) r).
+Proof. intros H r. rewrite (H (r_src r) r). reflexivity. Qed.
+
 Ltac rsn :=
   repeat first
     [ apply rscope_nat_get' | apply rsn_ret | apply rsn_err | apply rsn_panic | apply rsn_len_ext
@@ -424,6 +428,23 @@ Proof.
   unfold rscope_pushed. cbn [r_scope r_set_scope r_src].
   destruct (g _) as [[a r']| |]; cbn [bind]; try reflexivity.
   destruct (debug_asserts m && _); reflexivity.
+Qed.
+
+Lemma rsn_str (w : N) (dcd : list N -> list N) len :
+  rscope_nat (fun r =>
+    let rem := s_len (r_src r) - s_pos (r_src r) in
+    let iters := N.min len (rem / w + 1) in
+    let! (codes, r) := read_chars (N.to_nat iters) w r [] in
+    if iters <? len then Panic P_OTHER else
+    let! v := from_utf8 (dcd codes) in Ok (v, r)).
+Proof.
+  apply (rsn_src_dep (fun s r =>
+    let rem := s_len s - s_pos s in
+    let iters := N.min len (rem / w + 1) in
+    let! (codes, r) := read_chars (N.to_nat iters) w r [] in
+    if iters <? len then Panic P_OTHER else
+    let! v := from_utf8 (dcd codes) in Ok (v, r))).
+  intros s. cbv zeta. rsn.
 Qed.
 
 Lemma read_ty_factor m t r ob r1 :
@@ -442,6 +463,9 @@ Proof.
   all: try (eapply read_factor_gen;
             [|intros r' ob' r1' He'; cbn [read_ty]; unfold read_bit_field_entry; rewrite He'; cbn [bind]; reflexivity]).
   all: try solve [rsn].
+  1-4: apply rsn_bind; [rsn|intros len]; apply rsn_bind0; intros u.
+  1,3,4: apply (rsn_str 7 (fun c => c) len).
+  1: apply (rsn_str 4 (map (fun x => if x =? 0 then 32 else 32 + 15 + x)) len).
   - apply (rsn_bind (fun r => r_get r (r_bitstring m lo hi ext))
              (fun a r0 => let '(bs, bl, buflen) := a in
                 Ok (VBits (bytes_of_bits bs ++ repeat 0 (N.to_nat buflen - length (bytes_of_bits bs))) bl, r0))); [rsn|].
@@ -579,6 +603,20 @@ Proof.
   apply IHl; assumption.
 Qed.
 
+Lemma wpick_guard m x w : forall alts i, (length alts <= i)%nat -> wpick m x w alts i = Panic P_OTHER.
+Proof.
+  induction alts as [|a alts IH]; intros i H; [destruct i; reflexivity|].
+  destruct i as [|i]; [cbn [length] in H; lia|]. cbn [wpick]. apply IH. cbn [length] in H. lia.
+Qed.
+
+Lemma wpick_guarded m x w alts index :
+  (if N.of_nat (length alts) <=? index then Panic P_OTHER else wpick m x w alts (N.to_nat index))
+  = wpick m x w alts (N.to_nat index).
+Proof.
+  destruct (N.leb_spec (N.of_nat (length alts)) index); [|reflexivity].
+  symmetry. apply wpick_guard. lia.
+Qed.
+
 Lemma W_choice m alts std ext : Forall (Wprop m) alts -> Wprop m (TChoice alts std ext).
 Proof.
   intros F v w Hw Hs. destruct v; try reflexivity.
@@ -589,9 +627,9 @@ Proof.
     with (enc_pick m v).
   destruct (w_enumeration_index m std ext index) as [ib| |]; cbn [w_put bind wsim]; try reflexivity.
   destruct (std <=? index).
-  - change (fix pick (alts0 : list ty) (i : nat) {struct alts0} : res wst :=
-            match alts0 with [] => Panic P_OTHER | a :: r => match i with 0%nat => write_ty m a v w_empty | S i' => pick r i' end end)
-      with (wpick m v w_empty).
+  - match goal with |- context [bind (if _ then Panic P_OTHER else ?X) _] =>
+      change X with (wpick m v w_empty alts (N.to_nat index)) end.
+    rewrite wpick_guarded.
     pose proof (wpick_sim m v alts F (N.to_nat index) w_empty w_empty_wf eq_refl) as Hr. unfold wsim in Hr.
     destruct (enc_pick m v alts (N.to_nat index)) as [cb| |]; cbn [bind].
     + rewrite Hr. cbn [bind]. rewrite w_bits_empty_append. fold (wrap_open m cb).
@@ -599,9 +637,9 @@ Proof.
       rewrite w_append_app, set_none_append by exact Hs. reflexivity.
     + destruct (wpick m v w_empty alts (N.to_nat index)); try discriminate Hr; reflexivity.
     + destruct (wpick m v w_empty alts (N.to_nat index)); try discriminate Hr; reflexivity.
-  - change (fix pick (alts0 : list ty) (i : nat) {struct alts0} : res wst :=
-            match alts0 with [] => Panic P_OTHER | a :: r => match i with 0%nat => write_ty m a v (w_append w ib) | S i' => pick r i' end end)
-      with (wpick m v (w_append w ib)).
+  - match goal with |- context [bind (if _ then Panic P_OTHER else ?X) _] =>
+      change X with (wpick m v (w_append w ib) alts (N.to_nat index)) end.
+    rewrite wpick_guarded.
     pose proof (wpick_sim m v alts F (N.to_nat index) (w_append w ib) (w_append_wf _ _ Hw) Hs) as Hr. unfold wsim in Hr.
     destruct (enc_pick m v alts (N.to_nat index)) as [cb| |]; cbn [bind].
     + rewrite Hr. cbn [bind]. rewrite w_append_app, set_none_append by exact Hs. reflexivity.
@@ -893,4 +931,2145 @@ Proof.
   - assert (E2 : (ch - 32 - 15) mod 256 = ch - 47) by (rewrite N.mod_small; lia).
     rewrite E2. rewrite vob_bov_small by (cbn; lia).
     destruct (N.eqb_spec (ch - 47) 0); lia.
+Qed.
+
+
+
+(** * the reader against [enc] *)
+(* the source keeps its whole buffer: absolute positions (presence bits, open-type ends) are
+   meaningful; the declared length is a usize *)
+Definition src_ok (s : src) : Prop :=
+  s_rest s = skipn (N.to_nat (s_pos s)) (s_all s) /\ s_len s < two64.
+Definition rsrc (s : src) (bs tail : bits) : Prop := at_src s bs tail /\ src_ok s.
+
+Definition Rprop (m : mode) (t : ty) : Prop :=
+  wf_ty t -> forall v bs, enc m t v = Ok bs -> wf_val t v -> ~ Known_C01 m t v ->
+  forall s tail, rsrc s bs tail ->
+  read_ty m t (r_of_src s) = Ok (v, r_of_src (src_adv s (bl bs) tail)).
+
+Lemma r_get_of_src {A} s (f : src -> res (A * src)) :
+  r_get (r_of_src s) f = let! (a, s') := f s in Ok (a, r_of_src s').
+Proof. reflexivity. Qed.
+
+Lemma src_adv_nil s tail : at_src s [] tail -> src_adv s 0 tail = s.
+Proof. intros (E & _). cbn [app] in E. rewrite <- E. apply src_adv_0. Qed.
+
+Lemma skipn_app_exact {A} (a b : list A) n : n = length a -> skipn n (a ++ b) = b.
+Proof. intros ->. rewrite skipn_app, Nat.sub_diag, skipn_all. reflexivity. Qed.
+
+Lemma src_ok_adv s bs tail : src_ok s -> at_src s bs tail -> src_ok (src_adv s (bl bs) tail).
+Proof.
+  intros (E & L) (R & _). unfold src_ok, src_adv. cbn [s_rest s_pos s_all s_len]. split; [|exact L].
+  replace (N.to_nat (s_pos s + bl bs)) with (N.to_nat (s_pos s) + length bs)%nat by (unfold bl; lia).
+  rewrite <- skipn_skipn', <- E, R. symmetry. apply skipn_app_exact. reflexivity.
+Qed.
+
+Lemma rsrc_split s a b tail : rsrc s (a ++ b) tail ->
+  rsrc s a (b ++ tail) /\ rsrc (src_adv s (bl a) (b ++ tail)) b tail.
+Proof.
+  intros [H O]. apply at_src_split in H. destruct H as [H1 H2].
+  split; split; auto. apply src_ok_adv; assumption.
+Qed.
+
+Lemma len_hdr_read m ext lo hi up n h s tail :
+  len_hdr m ext lo hi up n = Ok h -> ~ Known_C01_len lo hi up n -> at_src s h tail ->
+  read_len_ext m (r_of_src s) ext lo hi = Ok (n, r_of_src (src_adv s (bl h) tail)) /\ n < 65536.
+Proof.
+  unfold len_hdr, read_len_ext. intros He Hk Hs.
+  assert (Hunc : forall s' tl, n < 16384 -> at_src s' (x_len_first n) tl ->
+            r_length_determinant m None None s' = Ok (n, src_adv s' (bl (x_len_first n)) tl)).
+  { intros s' tl Hn Hs'.
+    assert (Ex : x_length None None n = Some (x_len_first n)).
+    { unfold x_length. destruct (N.leb_spec 0 n); [reflexivity|lia]. }
+    rewrite (length_read m None None n (x_len_first n) s' tl); [|intros C; apply C; reflexivity|exact Ex|exact Hs'].
+    unfold len_result, len_frag. rewrite frag_of_short by exact Hn. reflexivity. }
+  destruct ((n <? opt_or lo 0) || (opt_or hi up <? n)) eqn:Eo.
+  - destruct ext; cbn [negb] in He; [|discriminate He].
+    rewrite w_len_unc in He. cbn [bind app] in He. injection He as <-.
+    assert (Hn : n < 16384).
+    { destruct (N.lt_ge_cases n 16384) as [L|L]; [exact L|]. exfalso. apply Hk. right. split; [exact L|].
+      left. unfold count_in_range. lia. }
+    apply at_src_cons in Hs. destruct Hs as [H1 H2].
+    rewrite r_get_of_src, (r_bit_ok _ _ _ H1). cbn [bind]. rewrite r_get_of_src.
+    rewrite (Hunc _ _ Hn H2). cbn [bind]. rewrite src_adv_adv, bl_cons. split; [reflexivity|lia].
+  - assert (Hin : count_in_range lo hi up n) by (unfold count_in_range; lia).
+    assert (Hnk : ~ Known_C10_length_semi_or_large_bound lo hi).
+    { intros C. apply Hk. left. split; assumption. }
+    destruct (w_length_determinant m lo hi n) as [[b fs]| |] eqn:Ew; cbn [bind] in He; try discriminate He.
+    injection He as <-.
+    destruct (x_length lo hi n) as [xb|] eqn:Ex.
+    2:{ rewrite (length_reject m lo hi n Hnk Ex) in Ew. discriminate Ew. }
+    rewrite (length_write m lo hi n xb Hnk Ex) in Ew. injection Ew as <- _.
+    assert (Hres : len_result hi n = n /\ n < 65536).
+    { destruct (not_known_cases lo hi Hnk) as [(u & -> & Hu)|[-> ->]].
+      - split; [reflexivity|]. destruct Hin as [_ Hin]. cbn [opt_or] in Hin. lia.
+      - assert (Hn : n < 16384).
+        { destruct (N.lt_ge_cases n 16384) as [L|L]; [exact L|]. exfalso. apply Hk. right. split; [exact L|].
+          right. split; reflexivity. }
+        unfold len_result, len_frag. rewrite frag_of_short by exact Hn. split; [reflexivity|lia]. }
+    destruct Hres as [Hres Hlt].
+    destruct ext.
+    + apply at_src_cons in Hs. destruct Hs as [H1 H2].
+      rewrite r_get_of_src, (r_bit_ok _ _ _ H1). cbn [bind]. rewrite r_get_of_src.
+      rewrite (length_read m lo hi n xb _ _ Hnk Ex H2), Hres. cbn [bind].
+      rewrite src_adv_adv. cbn [app]. rewrite bl_cons. split; [reflexivity|exact Hlt].
+    + cbn [app] in *. rewrite r_get_of_src, (length_read m lo hi n xb _ _ Hnk Ex Hs), Hres. split; [reflexivity|exact Hlt].
+Qed.
+
+Lemma read_chars_spec c : c <> Utf8 -> forall cs s tail acc,
+  Forall (fun ch => cs_valid c ch = true) cs ->
+  at_src s (flat_map (char_bits c) cs) tail ->
+  exists codes, read_chars (length cs) (cwidth c) (r_of_src s) acc
+    = Ok (rev acc ++ codes, r_of_src (src_adv s (bl (flat_map (char_bits c) cs)) tail))
+    /\ map (cdecode c) codes = cs.
+Proof.
+  intros Hc. induction cs as [|ch cs IH]; intros s tail acc F Hs.
+  - exists []. cbn [length read_chars flat_map map]. unfold frev. rewrite rev_append_rev, !app_nil_r.
+    rewrite bl_nil, (src_adv_nil _ _ Hs). split; reflexivity.
+  - apply Forall_cons_iff in F. destruct F as [Hv F]. cbn [flat_map] in *.
+    apply at_src_split in Hs. destruct Hs as [H1 H2].
+    destruct (char_bits_spec c ch Hc Hv) as [Hl Hd].
+    cbn [length read_chars]. rewrite r_get_of_src.
+    rewrite (r_bits_into_ok _ _ _ 8 (8 - cwidth c) (cwidth c) H1) by (rewrite ?Hl; destruct c; cbn [cwidth]; lia).
+    cbn [bind]. rewrite Hl in H2.
+    destruct (IH _ _ (val_of_bits (char_bits c ch) :: acc) F H2) as (codes & E & M).
+    exists (val_of_bits (char_bits c ch) :: codes). rewrite E. split.
+    + cbn [rev]. rewrite <- app_assoc. cbn [app]. rewrite src_adv_adv, bl_app, Hl. reflexivity.
+    + cbn [map]. rewrite Hd, M. reflexivity.
+Qed.
+
+Lemma w_octet_ok_x m lo hi ext bytes bs : blen bytes < two63 -> ~ Known_C10_sized_length lo hi (blen bytes) ->
+  w_octetstring m lo hi ext bytes = Ok bs -> x_octetstring lo hi ext bytes = Some bs.
+Proof.
+  intros H1 H2 H. rewrite octetstring_write in H by assumption.
+  destruct (x_octetstring lo hi ext bytes); [congruence|discriminate H].
+Qed.
+
+Lemma char_bits_total c : c <> Utf8 -> forall cs, Forall (fun ch => cs_valid c ch = true) cs ->
+  bl (flat_map (char_bits c) cs) = N.of_nat (length cs) * cwidth c.
+Proof.
+  intros Hc. induction 1 as [|ch cs Hv _ IH]; [reflexivity|].
+  cbn [flat_map length]. rewrite bl_app, IH. destruct (char_bits_spec c ch Hc Hv) as [-> _]. lia.
+Qed.
+
+Lemma str_read m c lo hi ext chars h s tail :
+  c <> Utf8 -> find_invalid c chars = false ->
+  len_hdr m ext lo hi U64_MAX (N.of_nat (length chars)) = Ok h ->
+  ~ Known_C01_len lo hi U64_MAX (N.of_nat (length chars)) ->
+  at_src s (h ++ flat_map (char_bits c) chars) tail ->
+  (let! (len, r) := read_len_ext m (r_of_src s) ext lo hi in
+   let! _ := alloc len in
+   let rem := s_len (r_src r) - s_pos (r_src r) in
+   let iters := N.min len (rem / cwidth c + 1) in
+   let! (codes, r) := read_chars (N.to_nat iters) (cwidth c) r [] in
+   if iters <? len then Panic P_OTHER else
+   let! v := from_utf8 (match c with
+                        | Numeric => map (fun x => if x =? 0 then 32 else 32 + 15 + x) codes
+                        | _ => codes end) in Ok (v, r))
+  = Ok (VStr chars, r_of_src (src_adv s (bl (h ++ flat_map (char_bits c) chars)) tail)).
+Proof.
+  intros Hc Hf Hh Hk Hs. apply at_src_split in Hs. destruct Hs as [H1 H2].
+  destruct (len_hdr_read m ext lo hi U64_MAX _ h s _ Hh Hk H1) as [E Hn]. rewrite E. cbn [bind].
+  rewrite alloc_ok by (unfold ALLOC_LIMIT; lia). cbn [bind]. cbv zeta.
+  pose proof (find_invalid_false c chars Hf) as Fv.
+  assert (Hit : N.min (N.of_nat (length chars))
+                  ((s_len (r_src (r_of_src (src_adv s (bl h) (flat_map (char_bits c) chars ++ tail))))
+                    - s_pos (r_src (r_of_src (src_adv s (bl h) (flat_map (char_bits c) chars ++ tail))))) / cwidth c + 1)
+                = N.of_nat (length chars)).
+  { cbn [r_src r_of_src]. destruct H2 as (_ & L & _). rewrite (char_bits_total c Hc chars Fv) in L.
+    apply N.min_l.
+    assert (W : 0 < cwidth c) by (destruct c; cbn; lia).
+    assert (D : N.of_nat (length chars) <=
+                (s_len (src_adv s (bl h) (flat_map (char_bits c) chars ++ tail))
+                 - s_pos (src_adv s (bl h) (flat_map (char_bits c) chars ++ tail))) / cwidth c).
+    { apply N.div_le_lower_bound; lia. }
+    lia. }
+  rewrite Hit. rewrite Nat2N.id.
+  destruct (read_chars_spec c Hc chars _ tail [] Fv H2) as (codes & Er & Em).
+  rewrite Er. cbn [bind rev app]. rewrite N.ltb_irrefl.
+  assert (Ed : match c with
+               | Numeric => map (fun x => if x =? 0 then 32 else 32 + 15 + x) codes
+               | _ => codes end = chars).
+  { rewrite <- Em. destruct c; try reflexivity; cbn [cdecode]; rewrite map_id; reflexivity. }
+  rewrite Ed, from_utf8_ascii.
+  - cbn [bind]. rewrite src_adv_adv, bl_app. reflexivity.
+  - eapply Forall_impl; [|exact Fv]. intros ch Hv. apply (cs_valid_ascii c ch Hc Hv).
+Qed.
+
+Lemma canonical_content bytes n : canonical_bits bytes n ->
+  let content := firstn (N.to_nat n) (bits_of_bytes bytes) in
+  bl content = n /\ bytes_of_bits content = bytes /\ n <= 8 * blen bytes.
+Proof.
+  intros (Fb & Hl & Hp) content.
+  assert (Hle : n <= 8 * blen bytes).
+  { rewrite Hl. pose proof (N.div_mod (n + 7) 8 ltac:(lia)). pose proof (N.mod_lt (n + 7) 8 ltac:(lia)). lia. }
+  assert (Hlt : 8 * blen bytes - n < 8).
+  { rewrite Hl. pose proof (N.div_mod (n + 7) 8 ltac:(lia)). pose proof (N.mod_lt (n + 7) 8 ltac:(lia)). lia. }
+  split; [|split; [|exact Hle]].
+  - unfold content, bl. rewrite firstn_length, bits_length. unfold blen in Hle. lia.
+  - apply (bytes_of_bits_unique _ _ (N.to_nat (8 * blen bytes - n)) Fb); [|lia].
+    unfold content. rewrite <- Hp. symmetry. apply firstn_skipn.
+Qed.
+
+Lemma R_flat m t :
+  match t with TListOf _ _ _ _ | TSeq _ _ _ _ | TChoice _ _ _ => True | _ => Rprop m t end.
+Proof.
+  destruct t as [| |k lo hi ext|c lo hi ext|lo hi ext|lo hi ext|e lo hi ext|fs so fc ea|alts std ext|vc std ext];
+    try exact I; intros Hty v bs He Hv Hk s tail [Hs Ho]; destruct v; try discriminate He; try contradiction Hv;
+    cbn [enc] in He; cbn [read_ty]; rewrite rentry_none' by reflexivity; cbn [bind].
+  - (* BOOLEAN *) injection He as <-. rewrite rwith_buffer_none by reflexivity.
+    rewrite r_get_of_src, (r_bit_ok _ _ _ Hs). reflexivity.
+  - (* NULL *) injection He as <-. rewrite rwith_buffer_none by reflexivity. rewrite bl_nil, (src_adv_nil _ _ Hs). reflexivity.
+  - (* INTEGER *)
+    rewrite rwith_buffer_none by reflexivity. cbn [wf_val] in Hv. cbn [wf_ty] in Hty. destruct Hty as (Hlo & Hhi & _).
+    unfold int_enc in He.
+    assert (Hi : is_i64 (to_i64 z)) by (apply i64_of_u64_range, u64_of_i64_lt).
+    assert (Hl : is_i64 (opt_or lo 0%Z)) by (destruct lo; [exact Hlo|unfold is_i64; cbn; lia]).
+    assert (Hh : is_i64 (opt_or hi I64_MAXz)) by (destruct hi; [exact Hhi|unfold is_i64, I64_MAXz; cbn; lia]).
+    set (mx := if ext then ((to_i64 z <? opt_or lo 0) || (opt_or hi I64_MAXz <? to_i64 z))%Z
+               else negb (is_some lo) && negb (is_some hi)) in *.
+    assert (Hbody : forall s' tl b, (if mx then w_unconstrained m (to_i64 z)
+                     else w_constrained m (opt_or lo 0%Z) (opt_or hi I64_MAXz) (to_i64 z)) = Ok b ->
+              at_src s' b tl ->
+              (if mx then r_get (r_of_src s') (r_unconstrained m)
+               else r_get (r_of_src s') (r_constrained m (opt_or lo 0%Z) (opt_or hi I64_MAXz)))
+              = Ok (to_i64 z, r_of_src (src_adv s' (bl b) tl))).
+    { intros s' tl b Hb Hs'. destruct mx.
+      - rewrite unconstrained_write in Hb by exact Hi. injection Hb as <-.
+        rewrite r_get_of_src, (unconstrained_read m _ _ _ Hi Hs'). reflexivity.
+      - destruct (Z_lt_le_dec (to_i64 z) (opt_or lo 0%Z)) as [L|L].
+        { rewrite constrained_reject in Hb by lia. discriminate Hb. }
+        destruct (Z_lt_le_dec (opt_or hi I64_MAXz) (to_i64 z)) as [U|U].
+        { rewrite constrained_reject in Hb by lia. discriminate Hb. }
+        destruct (constrained_write m _ _ (to_i64 z) Hl Hh (conj L U)) as (xb & Ew & Ex).
+        rewrite Ew in Hb. injection Hb as <-.
+        rewrite r_get_of_src, (constrained_read m _ _ _ _ _ _ Hl Hh (conj L U) Ex Hs'). reflexivity. }
+    destruct (if mx then _ else _) as [b| |] eqn:Eb in He; cbn [bind] in He; try discriminate He.
+    injection He as <-.
+    destruct ext.
+    + cbn [app] in *. apply at_src_cons in Hs. destruct Hs as [H1 H2].
+      rewrite r_get_of_src, (r_bit_ok _ _ _ H1). cbn [bind].
+      rewrite (Hbody _ _ _ Eb H2). cbn [bind]. rewrite src_adv_adv, bl_cons, from_to_i64 by exact Hv. reflexivity.
+    + cbn [app bind] in *. fold mx. rewrite (Hbody _ _ _ Eb Hs). cbn [bind]. rewrite from_to_i64 by exact Hv. reflexivity.
+  - (* character strings *)
+    cbn [wf_val] in Hv. destruct Hv as [Hsc Hlen].
+    destruct c.
+    + (* UTF8String *)
+      rewrite rwith_buffer_none by reflexivity.
+      destruct (negb ext && _); [discriminate He|].
+      assert (Hb : blen (utf8_encode chars) < two63) by (unfold SIZE_LIMIT in Hlen; unfold two63; lia).
+      assert (Hnk : ~ Known_C10_sized_length None None (blen (utf8_encode chars))).
+      { intros [C _]. apply C. reflexivity. }
+      apply (w_octet_ok_x m _ _ _ _ _ Hb Hnk) in He.
+      assert (Ha : blen (utf8_encode chars) <= ALLOC_LIMIT) by (unfold ALLOC_LIMIT, SIZE_LIMIT in *; lia).
+      rewrite r_get_of_src, (octetstring_read m None None false _ _ _ _ Ha Hnk He Hs).
+      cbn [bind]. rewrite bytes_of_bits_of_bytes by (apply utf8_encode_bytes; exact Hsc).
+      unfold from_utf8. rewrite utf8_roundtrip by exact Hsc. reflexivity.
+    + rewrite rwith_buffer_none by reflexivity.
+      destruct (find_invalid Ia5 chars) eqn:Ef; [discriminate He|].
+      destruct (len_hdr _ _ _ _ _ _) as [h| |] eqn:Eh; cbn [bind] in He; try discriminate He. injection He as <-.
+      apply (str_read m Ia5 lo hi ext chars h s tail ltac:(discriminate) Ef Eh Hk Hs).
+    + rewrite rwith_buffer_none by reflexivity.
+      destruct (find_invalid Numeric chars) eqn:Ef; [discriminate He|].
+      destruct (len_hdr _ _ _ _ _ _) as [h| |] eqn:Eh; cbn [bind] in He; try discriminate He. injection He as <-.
+      apply (str_read m Numeric lo hi ext chars h s tail ltac:(discriminate) Ef Eh Hk Hs).
+    + rewrite rwith_buffer_none by reflexivity.
+      destruct (find_invalid Printable chars) eqn:Ef; [discriminate He|].
+      destruct (len_hdr _ _ _ _ _ _) as [h| |] eqn:Eh; cbn [bind] in He; try discriminate He. injection He as <-.
+      apply (str_read m Printable lo hi ext chars h s tail ltac:(discriminate) Ef Eh Hk Hs).
+    + rewrite rwith_buffer_none by reflexivity.
+      destruct (find_invalid Visible chars) eqn:Ef; [discriminate He|].
+      destruct (len_hdr _ _ _ _ _ _) as [h| |] eqn:Eh; cbn [bind] in He; try discriminate He. injection He as <-.
+      apply (str_read m Visible lo hi ext chars h s tail ltac:(discriminate) Ef Eh Hk Hs).
+  - (* OCTET STRING *)
+    rewrite rwith_buffer_none by reflexivity. cbn [wf_val] in Hv. destruct Hv as [Fb Hlen]. cbn [Known_C01] in Hk.
+    assert (Hb : blen bytes < two63) by (unfold SIZE_LIMIT in Hlen; unfold two63; lia).
+    assert (Ha : blen bytes <= ALLOC_LIMIT) by (unfold ALLOC_LIMIT, SIZE_LIMIT in *; lia).
+    apply (w_octet_ok_x m _ _ _ _ _ Hb Hk) in He.
+    rewrite r_get_of_src, (octetstring_read m lo hi ext _ _ _ _ Ha Hk He Hs). cbn [bind].
+    rewrite bytes_of_bits_of_bytes by exact Fb. reflexivity.
+  - (* BIT STRING *)
+    rewrite rwith_buffer_none by reflexivity. cbn [wf_val] in Hv. destruct Hv as [Hc Hlen]. cbn [Known_C01] in Hk.
+    destruct (canonical_content bytes bit_len Hc) as (Hbl & Hby & Hle). cbv zeta in Hbl, Hby.
+    set (content := firstn (N.to_nat bit_len) (bits_of_bytes bytes)) in *.
+    assert (Hk1 : ~ Known_C10_sized_length lo hi bit_len) by tauto.
+    assert (Hk2 : ~ Known_C10_bitstring_16k lo hi bit_len) by tauto.
+    rewrite bitstring_write in He; [|lia|unfold SIZE_LIMIT in Hlen; unfold two63; lia|exact Hk1|exact Hk2].
+    change (N.to_nat 0) with 0%nat in He. cbn [skipn] in He. fold content in He.
+    destruct (x_bitstring lo hi ext content) as [xb|] eqn:Ex; [|discriminate He]. injection He as <-.
+    rewrite <- Hbl in Hk1, Hk2.
+    assert (Ha : bl content <= ALLOC_LIMIT) by (rewrite Hbl; unfold ALLOC_LIMIT, SIZE_LIMIT in *; lia).
+    rewrite r_get_of_src, (bitstring_read m lo hi ext content xb s tail Ha Hk1 Hk2 Ex Hs). cbn [bind].
+    rewrite Hby, Hbl. destruct Hc as (_ & Hl & _). unfold blen in Hl.
+    replace (N.to_nat ((bit_len + 7) / 8) - length bytes)%nat with 0%nat by lia.
+    cbn [repeat]. rewrite app_nil_r. reflexivity.
+  - (* ENUMERATED *)
+    cbn [wf_val] in Hv. cbn [wf_ty] in Hty. destruct Hty as (H1 & H2 & H3 & H4).
+    assert (Hstd : std < two64) by (unfold SIZE_LIMIT in H3; unfold two64; lia).
+    assert (Hix : index < two64) by (unfold SIZE_LIMIT in H3; unfold two64; lia).
+    destruct (x_index std ext index) as [xb|] eqn:Ex.
+    2:{ rewrite (index_reject m std ext index Ex) in He. discriminate He. }
+    rewrite (index_write m std ext index xb Hstd Hix Ex) in He. injection He as <-.
+    rewrite rwith_buffer_none by reflexivity.
+    rewrite r_get_of_src, (index_read m std ext index xb s tail Hstd Hix Ex Hs). cbn [bind].
+    destruct (N.ltb_spec index vc); [reflexivity|lia].
+Qed.
+
+
+
+(** * open types *)
+Lemma wrap_open_x m cb : bl cb < two63 ->
+  wrap_open m cb = Ok (x_unconstrained_length_run 8 ((bl cb + 7) / 8) (cb ++ repeat false (pad8 (length cb)))).
+Proof.
+  intros Hb. unfold wrap_open.
+  assert (Hn : blen (bytes_of_bits cb) < two63).
+  { rewrite bytes_of_bits_len. unfold two63 in *. pose proof (N.div_mod (bl cb + 7) 8 ltac:(lia)).
+    pose proof (N.mod_lt (bl cb + 7) 8 ltac:(lia)). lia. }
+  rewrite octetstring_write; [|exact Hn|intros [C _]; apply C; reflexivity].
+  unfold x_octetstring, x_sized_run. fold (blen (bytes_of_bits cb)). rewrite bytes_of_bits_len, bits_of_bytes_of_bits.
+  destruct (N.leb_spec 0 ((bl cb + 7) / 8)); [|lia]. reflexivity.
+Qed.
+
+Lemma wrap_open_small m cb wb : wrap_open m cb = Ok wb -> (bl cb + 7) / 8 < 16384 ->
+  wb = x_len_short ((bl cb + 7) / 8) ++ cb ++ repeat false (pad8 (length cb)).
+Proof.
+  intros H Hn. rewrite wrap_open_x in H.
+  - rewrite x_run_short in H by exact Hn. congruence.
+  - pose proof (N.div_mod (bl cb + 7) 8 ltac:(lia)). pose proof (N.mod_lt (bl cb + 7) 8 ltac:(lia)).
+    unfold two63. lia.
+Qed.
+
+Definition same_buf (s s' : src) : Prop :=
+  s_all s = s_all s' /\ s_total s = s_total s' /\ s_len s = s_len s'.
+Lemma same_buf_adv s n tl : same_buf s (src_adv s n tl).
+Proof. repeat split. Qed.
+Lemma same_buf_refl s : same_buf s s.
+Proof. repeat split. Qed.
+Lemma same_buf_trans a b c : same_buf a b -> same_buf b c -> same_buf a c.
+Proof. unfold same_buf. intuition congruence. Qed.
+
+(* jumping to the absolute end of a window that starts at the cursor of [s] *)
+Lemma src_set_pos_end s s' bs tail : rsrc s bs tail -> same_buf s s' ->
+  src_set_pos s' (s_pos s + bl bs) = src_adv s (bl bs) tail.
+Proof.
+  intros [(R & L & T) (E & _)] (A & To & Le). unfold src_set_pos, src_adv. rewrite <- A, <- To, <- Le.
+  rewrite N.min_l by exact L. f_equal.
+  replace (N.to_nat (s_pos s + bl bs)) with (N.to_nat (s_pos s) + length bs)%nat by (unfold bl; lia).
+  rewrite <- skipn_skipn', <- E, R. apply skipn_app_exact. reflexivity.
+Qed.
+
+Lemma open_read {A} m cb wb s tail (f : rst -> res (A * rst)) x :
+  wrap_open m cb = Ok wb -> (bl cb + 7) / 8 < 16384 -> rsrc s wb tail ->
+  (forall s' tl, rsrc s' cb tl -> f (r_of_src s') = Ok (x, r_of_src (src_adv s' (bl cb) tl))) ->
+  (let! (len, r2) := r_get (r_of_src s) (r_length_determinant m None None) in
+   read_whole_sub_slice m r2 len f) = Ok (x, r_of_src (src_adv s (bl wb) tail)).
+Proof.
+  intros Hw Hn Hs Hf. pose proof (wrap_open_small m cb wb Hw Hn) as E.
+  set (n := (bl cb + 7) / 8) in *. set (pad := repeat false (pad8 (length cb))) in *.
+  assert (Hpad : bl cb + bl pad = 8 * n).
+  { pose proof (f_equal bl (bits_of_bytes_of_bits cb)) as EL. rewrite bits_len8, bytes_of_bits_len, bl_app in EL.
+    fold pad n in EL. lia. }
+  assert (Hwb : bl wb = bl (x_len_short n) + 8 * n) by (rewrite E, !bl_app; lia).
+  pose proof Hs as Hs0. rewrite E in Hs. apply rsrc_split in Hs. destruct Hs as [H1 H2].
+  assert (Ex : x_length None None n = Some (x_len_first n)).
+  { unfold x_length. destruct (N.leb_spec 0 n); [reflexivity|lia]. }
+  rewrite <- (x_len_first_short n Hn) in H1, H2.
+  rewrite r_get_of_src.
+  rewrite (length_read m None None n _ s _ ltac:(intros C; apply C; reflexivity) Ex (proj1 H1)).
+  unfold len_result, len_frag. rewrite frag_of_short by exact Hn. cbn [bind].
+  unfold read_whole_sub_slice. cbn [r_src r_of_src].
+  destruct Hs0 as [(_ & HL & HT) (_ & H64)].
+  assert (U1 : umul m n BYTE_LEN = Ok (8 * n)).
+  { unfold umul, BYTE_LEN. destruct (N.ltb_spec (n * 8) two64) as [L|L]; [f_equal; lia|unfold two64 in L; lia]. }
+  rewrite U1. cbn [bind]. unfold src_adv at 1. cbn [s_pos].
+  rewrite (x_len_first_short n Hn) in *.
+  rewrite uadd_ok by lia. cbn [bind].
+  apply rsrc_split in H2. destruct H2 as [H2 _].
+  rewrite (Hf _ _ H2). cbn [bind]. unfold r_set_src. cbn [r_src r_scope r_of_src].
+  replace (s_pos s + bl (x_len_short n) + 8 * n) with (s_pos s + bl wb) by lia.
+  match goal with |- context [src_set_pos ?a ?b] =>
+    assert (Efin : src_set_pos a b = src_adv s (bl wb) tail) end.
+  { apply src_set_pos_end; [rewrite E; split; [|exact (proj2 H1)]|].
+    - destruct H1 as [H1 _]. destruct H1 as (R & _). split; [rewrite R, <- !app_assoc; reflexivity|].
+      rewrite <- E. split; lia.
+    - eapply same_buf_trans; apply same_buf_adv. }
+  rewrite Efin. reflexivity.
+Qed.
+
+(** * SEQUENCE OF *)
+Definition relems (m : mode) (e : ty) (big : bool) :=
+  fix elems (n : nat) (r : rst) (acc : list val) : res (val * rst) :=
+    match n with
+    | O => if big then Panic P_UNBOUNDED else Ok (VList (frev acc), r)
+    | S n' =>
+        let! (x, r') := read_ty m e r in
+        if big && (s_pos (r_src r') =? s_pos (r_src r)) then Panic P_UNBOUNDED
+        else elems n' r' (x :: acc)
+    end.
+Definition all_wf_val (e : ty) :=
+  fix all (vs : list val) : Prop := match vs with [] => True | x :: r => wf_val e x /\ all r end.
+Definition any_known (m : mode) (e : ty) :=
+  fix any (vs : list val) : Prop := match vs with [] => False | x :: r => Known_C01 m e x \/ any r end.
+
+Lemma relems_spec m e : Rprop m e -> wf_ty e ->
+  forall vs body s tail acc, enc_elems m e vs = Ok body -> all_wf_val e vs -> ~ any_known m e vs ->
+  rsrc s body tail ->
+  relems m e false (length vs) (r_of_src s) acc = Ok (VList (rev acc ++ vs), r_of_src (src_adv s (bl body) tail)).
+Proof.
+  intros IH Hty. induction vs as [|x vs IHl]; intros body s tail acc He Hv Hk Hs.
+  - cbn [enc_elems] in He. injection He as <-. cbn [length relems]. unfold frev.
+    rewrite rev_append_rev, !app_nil_r, bl_nil, (src_adv_nil _ _ (proj1 Hs)). reflexivity.
+  - cbn [enc_elems] in He. destruct (enc m e x) as [a| |] eqn:Ea; cbn [bind] in He; try discriminate He.
+    destruct (enc_elems m e vs) as [b| |] eqn:Eb; cbn [bind] in He; try discriminate He. injection He as <-.
+    cbn [all_wf_val] in Hv. destruct Hv as [Hx Hv]. cbn [any_known] in Hk.
+    apply rsrc_split in Hs. destruct Hs as [H1 H2].
+    cbn [length relems]. rewrite (IH Hty x a Ea Hx ltac:(tauto) _ _ H1). cbn [bind andb].
+    rewrite (IHl b _ tail (x :: acc) eq_refl Hv ltac:(tauto) H2). cbn [rev]. rewrite <- app_assoc. cbn [app].
+    rewrite src_adv_adv, bl_app. reflexivity.
+Qed.
+
+Lemma rscope_stashed_of_src {A} s (f : rst -> res (A * rst)) x s' :
+  f (r_of_src s) = Ok (x, r_of_src s') -> rscope_stashed (r_of_src s) f = Ok (x, r_of_src s').
+Proof.
+  unfold rscope_stashed. change (r_set_scope (r_of_src s) None) with (r_of_src s).
+  intros ->. reflexivity.
+Qed.
+
+Lemma R_list m e lo hi ext : Rprop m e -> Rprop m (TListOf e lo hi ext).
+Proof.
+  intros IH Hty v bs He Hv Hk s tail Hs. destruct v; try discriminate He; try contradiction Hv.
+  cbn [wf_ty] in Hty. destruct Hty as [_ Hte].
+  cbn [enc] in He. fold (enc_elems m e) in He.
+  destruct (len_hdr m ext lo hi I64_MAX (N.of_nat (length vs))) as [h| |] eqn:Eh; cbn [bind] in He; try discriminate He.
+  destruct (enc_elems m e vs) as [body| |] eqn:Eb; cbn [bind] in He; try discriminate He. injection He as <-.
+  cbn [wf_val] in Hv. destruct Hv as [Hlen Hv]. cbn [Known_C01] in Hk.
+  cbn [read_ty]. rewrite rentry_none' by reflexivity. cbn [bind]. rewrite rwith_buffer_none by reflexivity.
+  apply rsrc_split in Hs. destruct Hs as [H1 H2].
+  destruct (len_hdr_read m ext lo hi I64_MAX _ h s _ Eh ltac:(tauto) (proj1 H1)) as [E Hn]. rewrite E. cbn [bind].
+  destruct (N.ltb_spec 0 (N.of_nat (length vs))) as [L|L].
+  - apply rscope_stashed_of_src.
+    rewrite alloc_ok by (unfold ALLOC_LIMIT; lia). cbn [bind]. cbv zeta.
+    destruct (N.ltb_spec LOOP_LIMIT (N.of_nat (length vs))) as [L2|L2]; [unfold LOOP_LIMIT in L2; lia|].
+    rewrite Nat2N.id. fold (relems m e false).
+    rewrite (relems_spec m e IH Hte vs body _ tail [] Eb Hv ltac:(tauto) H2). cbn [rev app].
+    rewrite src_adv_adv, bl_app. reflexivity.
+  - destruct vs; [|cbn [length] in L; lia]. cbn [enc_elems] in Eb. injection Eb as <-.
+    rewrite app_nil_r. cbn [app]. reflexivity.
+Qed.
+
+(** * CHOICE *)
+Definition rpick (m : mode) (index : N) (r : rst) :=
+  fix pick (alts : list ty) (i : nat) : res (option val * rst) :=
+    match alts, i with
+    | a :: _, O => let! (x, r) := read_ty m a r in Ok (Some (VChoice index x), r)
+    | _ :: rest, S i' => pick rest i'
+    | [], _ => Ok (None, r)
+    end.
+Definition all_wf_ty := fix all (alts : list ty) : Prop := match alts with [] => True | a :: r => wf_ty a /\ all r end.
+Definition pick_wf (x : val) :=
+  fix pick (alts : list ty) (n : nat) : Prop :=
+    match alts, n with a :: _, O => wf_val a x | _ :: r, S n' => pick r n' | [], _ => False end.
+Definition pick_known (m : mode) (std i : N) (x : val) :=
+  fix pick (alts : list ty) (n : nat) : Prop :=
+    match alts, n with
+    | a :: _, O => Known_C01 m a x \/ (std <= i /\ Known_C01_open_type_16k m a x)
+    | _ :: r, S n' => pick r n'
+    | [], _ => False
+    end.
+
+Lemma rpick_spec m index std x : forall alts, Forall (Rprop m) alts -> all_wf_ty alts ->
+  forall i cb, enc_pick m x alts i = Ok cb -> pick_wf x alts i -> ~ pick_known m std index x alts i ->
+  (i < length alts)%nat /\ (std <= index -> (bl cb + 7) / 8 < 16384) /\
+  forall s tl, rsrc s cb tl ->
+  rpick m index (r_of_src s) alts i = Ok (Some (VChoice index x), r_of_src (src_adv s (bl cb) tl)).
+Proof.
+  induction alts as [|a alts IHl]; intros F Hty i cb He Hv Hk; [destruct i; discriminate He|].
+  apply Forall_cons_iff in F. destruct F as [Ha F]. cbn [all_wf_ty] in Hty. destruct Hty as [Hta Hty].
+  destruct i as [|i]; cbn [enc_pick pick_wf pick_known rpick length] in *.
+  - split; [lia|]. split.
+    + intros Hs. destruct (N.lt_ge_cases ((bl cb + 7) / 8) 16384) as [L|L]; [exact L|].
+      exfalso. apply Hk. right. split; [exact Hs|]. exists cb. split; assumption.
+    + intros s tl Hs. rewrite (Ha Hta x cb He Hv ltac:(tauto) s tl Hs). reflexivity.
+  - destruct (IHl F Hty i cb He Hv Hk) as (I1 & I2 & I3). split; [lia|]. split; assumption.
+Qed.
+
+Lemma R_choice m alts std ext : Forall (Rprop m) alts -> Rprop m (TChoice alts std ext).
+Proof.
+  intros F Hty v bs He Hv Hk s tail Hs. destruct v; try discriminate He; try contradiction Hv.
+  cbn [wf_ty] in Hty. destruct Hty as (H1 & H2 & H3 & H4 & Hta).
+  cbn [enc] in He. fold (enc_pick m v) in He.
+  destruct (w_enumeration_index m std ext index) as [ib| |] eqn:Ei; cbn [bind] in He; try discriminate He.
+  destruct (enc_pick m v alts (N.to_nat index)) as [cb| |] eqn:Ec; cbn [bind] in He; try discriminate He.
+  cbn [wf_val] in Hv. cbn [Known_C01] in Hk.
+  destruct (rpick_spec m index std v alts F Hta (N.to_nat index) cb Ec Hv Hk) as (Hi & Hsmall & Hr).
+  assert (Hstd : std < two64) by (unfold SIZE_LIMIT in H3; unfold two64; lia).
+  assert (Hix : index < two64) by (unfold SIZE_LIMIT in H3; unfold two64; lia).
+  destruct (x_index std ext index) as [xb|] eqn:Ex.
+  2:{ rewrite (index_reject m std ext index Ex) in Ei. discriminate Ei. }
+  rewrite (index_write m std ext index xb Hstd Hix Ex) in Ei. injection Ei as <-.
+  cbn [read_ty]. rewrite rentry_none' by reflexivity. cbn [bind].
+  apply rscope_stashed_of_src.
+  assert (Eg : N.of_nat (length alts) <=? index = false) by (apply N.leb_gt; lia).
+  set (gpick := fun r0 : rst => if N.of_nat (length alts) <=? index then Ok (None, r0)
+                                else rpick m index r0 alts (N.to_nat index)).
+  assert (Hr' : forall s tl, rsrc s cb tl ->
+            gpick (r_of_src s) = Ok (Some (VChoice index v), r_of_src (src_adv s (bl cb) tl))).
+  { intros s' tl' Hs'. unfold gpick. rewrite Eg. apply Hr. exact Hs'. }
+  destruct (N.leb_spec std index) as [L|L].
+  - destruct (wrap_open m cb) as [wb| |] eqn:Ew; cbn [bind] in He; try discriminate He. injection He as <-.
+    apply rsrc_split in Hs. destruct Hs as [Hs1 Hs2].
+    rewrite r_get_of_src, (index_read m std ext index xb s _ Hstd Hix Ex (proj1 Hs1)). cbn [bind].
+    rewrite (proj2 (N.leb_le std index) L).
+    match goal with |- context [read_whole_sub_slice m _ _ ?f] => change f with gpick end.
+    rewrite (open_read m cb wb _ tail gpick (Some (VChoice index v)) Ew (Hsmall L) Hs2 Hr').
+    cbn [bind]. rewrite src_adv_adv, bl_app. reflexivity.
+  - injection He as <-. apply rsrc_split in Hs. destruct Hs as [Hs1 Hs2].
+    rewrite r_get_of_src, (index_read m std ext index xb s _ Hstd Hix Ex (proj1 Hs1)). cbn [bind].
+    rewrite (proj2 (N.leb_gt std index) L).
+    match goal with |- bind ?X _ = _ =>
+      change X with (gpick (r_of_src (src_adv s (bl xb) (cb ++ tail)))) end.
+    rewrite (Hr' _ _ Hs2). cbn [bind]. rewrite src_adv_adv, bl_app. reflexivity.
+Qed.
+
+
+
+(** * SEQUENCE, writer side *)
+Definition wfield (m : mode) (f : fkind * ty) (ov : option val) (w : wst) : res wst :=
+  match f, ov with
+  | (FReq, ft), Some x => write_ty m ft x w
+  | (FOpt, ft), ov =>
+      let! w := write_bit_field_entry m w true (is_some ov) in
+      match ov with
+      | Some x => with_buffer m w (fun w => scope_stashed w (fun w => write_ty m ft x w))
+      | None => Ok w
+      end
+  | (FDef d, ft), Some x =>
+      let present := negb (val_eqb d x) in
+      let! w := write_bit_field_entry m w true present in
+      if present then with_buffer m w (fun w => scope_stashed w (fun w => write_ty m ft x w)) else Ok w
+  | _, _ => Panic P_OTHER
+  end.
+
+Definition wfields (m : mode) :=
+  fix fields (fs : list (fkind * ty)) (vals : list (option val)) (w : wst) : res wst :=
+    match fs, vals with
+    | [], _ => Ok w
+    | (FReq, ft) :: fs', Some x :: vals' =>
+        let! w := write_ty m ft x w in fields fs' vals' w
+    | (FOpt, ft) :: fs', ov :: vals' =>
+        let! w := write_bit_field_entry m w true (is_some ov) in
+        let! w := (match ov with
+                   | Some x => with_buffer m w (fun w => scope_stashed w (fun w => write_ty m ft x w))
+                   | None => Ok w
+                   end) in
+        fields fs' vals' w
+    | (FDef d, ft) :: fs', Some x :: vals' =>
+        let present := negb (val_eqb d x) in
+        let! w := write_bit_field_entry m w true present in
+        let! w := (if present then with_buffer m w (fun w => scope_stashed w (fun w => write_ty m ft x w)) else Ok w) in
+        fields fs' vals' w
+    | _, _ => Panic P_OTHER
+    end.
+
+Lemma write_ty_seq_eq m fs so fc ea vals w :
+  write_ty m (TSeq fs so fc ea) (VSeq vals) w =
+  let! w := write_bit_field_entry m w false true in
+  with_buffer m w (fun w =>
+    let bit_pos := w_n w in
+    let w := match ea with Some _ => w_append w [false] | None => w end in
+    let write_pos := w_n w in
+    let w := w_append w (repeat false (N.to_nat so)) in
+    match ea with
+    | Some e =>
+        let! nx := usub m fc (e + 1) in
+        scope_pushed m w (ExtSeq bit_pos (Some (write_pos, write_pos + so)) (e + 1) nx) (wfields m fs vals)
+    | None => scope_pushed m w (OptBitField write_pos (write_pos + so)) (wfields m fs vals)
+    end).
+Proof. reflexivity. Qed.
+
+Lemma bind_assoc {A B C} (r : res A) (f : A -> res B) (g : B -> res C) :
+  bind (bind r f) g = bind r (fun a => bind (f a) g).
+Proof. destruct r; reflexivity. Qed.
+
+Lemma wfields_cons m f fs ov vals w :
+  wfields m (f :: fs) (ov :: vals) w = let! w := wfield m f ov w in wfields m fs vals w.
+Proof.
+  destruct f as [[| |d] ft]; cbn [wfields wfield].
+  - destruct ov; reflexivity.
+  - rewrite bind_assoc. reflexivity.
+  - destruct ov; [|reflexivity]. cbv zeta. rewrite bind_assoc. reflexivity.
+Qed.
+Lemma wfields_nil_vals m f fs w : wfields m (f :: fs) [] w = Panic P_OTHER.
+Proof. destruct f as [[| |d] ft]; reflexivity. Qed.
+
+Lemma wfields_app m a : forall b vals w,
+  wfields m (a ++ b) vals w = let! w1 := wfields m a vals w in wfields m b (skipn (length a) vals) w1.
+Proof.
+  induction a as [|f a IH]; intros b vals w; [reflexivity|].
+  destruct vals as [|ov vals]; cbn [app length skipn].
+  - rewrite !wfields_nil_vals. reflexivity.
+  - rewrite !wfields_cons, bind_assoc. destruct (wfield m f ov w); cbn [bind]; try reflexivity. apply IH.
+Qed.
+
+Definition enc_field (m : mode) (f : fkind * ty) (ov : option val) : res fenc :=
+  match f, ov with
+  | (FReq, ft), Some x => let! b := enc m ft x in Ok (true, b)
+  | (FOpt, ft), None => Ok (false, [])
+  | (FOpt, ft), Some x => let! b := enc m ft x in Ok (true, b)
+  | (FDef d, ft), Some x => if val_eqb d x then Ok (false, []) else let! b := enc m ft x in Ok (true, b)
+  | _, _ => Panic P_OTHER
+  end.
+Definition enc_fields (m : mode) :=
+  fix go (fs : list (fkind * ty)) (vals : list (option val)) : res (list fenc) :=
+    match fs, vals with
+    | [], _ => Ok []
+    | (FReq, ft) :: fs', Some x :: vals' =>
+        let! b := enc m ft x in let! r := go fs' vals' in Ok ((true, b) :: r)
+    | (FOpt, ft) :: fs', None :: vals' =>
+        let! r := go fs' vals' in Ok ((false, []) :: r)
+    | (FOpt, ft) :: fs', Some x :: vals' =>
+        let! b := enc m ft x in let! r := go fs' vals' in Ok ((true, b) :: r)
+    | (FDef d, ft) :: fs', Some x :: vals' =>
+        if val_eqb d x then let! r := go fs' vals' in Ok ((false, []) :: r)
+        else let! b := enc m ft x in let! r := go fs' vals' in Ok ((true, b) :: r)
+    | _, _ => Panic P_OTHER
+    end.
+
+Lemma enc_seq_eq m fs so fc ea vals :
+  enc m (TSeq fs so fc ea) (VSeq vals) = let! fes := enc_fields m fs vals in seq_assemble m fs fes ea.
+Proof. reflexivity. Qed.
+
+Lemma enc_fields_cons m f fs ov vals :
+  enc_fields m (f :: fs) (ov :: vals) =
+  let! fe := enc_field m f ov in let! r := enc_fields m fs vals in Ok (fe :: r).
+Proof.
+  destruct f as [[| |d] ft], ov as [x|]; cbn [enc_fields enc_field]; try reflexivity.
+  - destruct (enc m ft x); reflexivity.
+  - destruct (enc m ft x); reflexivity.
+  - destruct (val_eqb d x); [reflexivity|]. destruct (enc m ft x); reflexivity.
+Qed.
+Lemma enc_fields_nil_vals m f fs : enc_fields m (f :: fs) [] = Panic P_OTHER.
+Proof. destruct f as [[| |d] ft]; reflexivity. Qed.
+
+Lemma enc_fields_app m a : forall b vals,
+  enc_fields m (a ++ b) vals =
+  let! x := enc_fields m a vals in let! y := enc_fields m b (skipn (length a) vals) in Ok (x ++ y).
+Proof.
+  induction a as [|f a IH]; intros b vals.
+  - cbn [app length skipn enc_fields bind]. destruct (enc_fields m b vals); reflexivity.
+  - destruct vals as [|ov vals]; cbn [app length skipn].
+    + rewrite !enc_fields_nil_vals. reflexivity.
+    + rewrite !enc_fields_cons, IH. destruct (enc_field m f ov); cbn [bind]; try reflexivity.
+      destruct (enc_fields m a vals); cbn [bind]; try reflexivity.
+      destruct (enc_fields m b (skipn (length a) vals)); reflexivity.
+Qed.
+
+Lemma enc_fields_length m : forall fs vals fes, enc_fields m fs vals = Ok fes -> length fes = length fs.
+Proof.
+  induction fs as [|f fs IH]; intros vals fes H.
+  - cbn in H. injection H as <-. reflexivity.
+  - destruct vals as [|ov vals]; [rewrite enc_fields_nil_vals in H; discriminate H|].
+    rewrite enc_fields_cons in H. destruct (enc_field m f ov); cbn [bind] in H; try discriminate H.
+    destruct (enc_fields m fs vals) eqn:E; cbn [bind] in H; try discriminate H. injection H as <-.
+    cbn [length]. f_equal. eapply IH. exact E.
+Qed.
+
+(* scope entries keep the sink consistent and the scope present *)
+Lemma set_nth_length {A} (l : list A) : forall i x, length (set_nth l i x) = length l.
+Proof. induction l as [|a l IH]; intros [|i] x; cbn [set_nth length]; auto. Qed.
+
+Lemma w_patch_inv w pos bit w1 : wst_wf w -> w_patch w pos bit = Ok w1 ->
+  wst_wf w1 /\ w_scope w1 = w_scope w.
+Proof.
+  unfold w_patch. intros Hw H. destruct (pos <? w_n w); [|discriminate H]. injection H as <-.
+  unfold wst_wf in *. cbn [w_n w_rbits w_scope]. rewrite set_nth_length. auto.
+Qed.
+
+Lemma write_into_field_inv m w sc o p w1 : wst_wf w -> w_scope w = Some sc ->
+  write_into_field m w sc o p = Ok w1 -> wst_wf w1 /\ exists sc1, w_scope w1 = Some sc1.
+Proof.
+  intros Hw Hsc H. destruct sc as [a b|a b|bp opt calls nx|]; cbn [write_into_field] in H.
+  - destruct o.
+    + destruct (w_patch w a p) as [w'| |] eqn:E; cbn [bind] in H; try discriminate H. injection H as <-.
+      destruct (w_patch_inv _ _ _ _ Hw E). split; [auto|eexists; reflexivity].
+    + injection H as <-. split; [auto|eexists; exact Hsc].
+  - destruct (w_patch w a p) as [w'| |] eqn:E; cbn [bind] in H; try discriminate H. injection H as <-.
+    destruct (w_patch_inv _ _ _ _ Hw E). split; [auto|eexists; reflexivity].
+  - destruct (calls =? 0).
+    + destruct (w_patch w bp p) as [w'| |] eqn:E; cbn [bind] in H; try discriminate H.
+      destruct (w_patch_inv _ _ _ _ Hw E) as [Hw' _]. destruct p.
+      * destruct (usub m nx 1); cbn [bind] in H; try discriminate H.
+        destruct (w_normally_small m _); cbn [w_put bind] in H; try discriminate H. injection H as <-.
+        split; [|eexists; reflexivity]. apply w_set_scope_wf, w_append_wf, w_append_wf, Hw'.
+      * injection H as <-. split; [auto|eexists; reflexivity].
+    + destruct opt as [[a b]|].
+      * destruct o.
+        -- destruct (w_patch w a p) as [w'| |] eqn:E; cbn [bind] in H; try discriminate H. injection H as <-.
+           destruct (w_patch_inv _ _ _ _ Hw E). split; [auto|eexists; reflexivity].
+        -- injection H as <-. split; [auto|eexists; reflexivity].
+      * injection H as <-. split; [auto|eexists; reflexivity].
+  - destruct p; [discriminate H|]. injection H as <-. split; [auto|eexists; exact Hsc].
+Qed.
+
+Lemma write_ty_shape m t v w : shape t v = false ->
+  write_ty m t v w = Panic P_OTHER /\ enc m t v = Panic P_OTHER.
+Proof. destruct t as [| | | c | | | | | |], v; try discriminate; try destruct c; split; reflexivity. Qed.
+
+Lemma w_restore w1 b : w_set_scope (w_append (w_set_scope w1 None) b) (w_scope w1) = w_append w1 b.
+Proof. destruct w1; reflexivity. Qed.
+
+(* the content of a present component, after its bit-field entry left the writer in [w1] *)
+Definition wcontent (m : mode) (wrapped : bool) (w1 : wst) (b : bits) : res wst :=
+  if wopen w1 && wrapped then w_put w1 (wrap_open m b) else Ok (w_append w1 b).
+
+Lemma content_direct m ft x w1 : Wprop m ft -> wst_wf w1 ->
+  match enc m ft x with
+  | Ok b => (let! w2 := write_ty m ft x (w_set_scope w1 None) in Ok (w_set_scope w2 (w_scope w1))) = Ok (w_append w1 b)
+  | _ => is_ok (let! w2 := write_ty m ft x (w_set_scope w1 None) in Ok (w_set_scope w2 (w_scope w1))) = false
+  end.
+Proof.
+  intros IH Hw. pose proof (IH x (w_set_scope w1 None) Hw eq_refl) as H. unfold wsim in H.
+  destruct (enc m ft x) as [b| |].
+  - rewrite H. cbn [bind]. rewrite w_restore. reflexivity.
+  - apply not_ok_bind. exact H.
+  - apply not_ok_bind. exact H.
+Qed.
+
+Lemma content_wrapped m ft x w1 : Wprop m ft ->
+  match enc m ft x with
+  | Ok b => (let! sub := write_ty m ft x w_empty in w_put w1 (wrap_open m (w_bits sub))) = w_put w1 (wrap_open m b)
+  | _ => is_ok (let! sub := write_ty m ft x w_empty in w_put w1 (wrap_open m (w_bits sub))) = false
+  end.
+Proof.
+  intros IH. pose proof (IH x w_empty w_empty_wf eq_refl) as H. unfold wsim in H.
+  destruct (enc m ft x) as [b| |].
+  - rewrite H. cbn [bind]. rewrite w_bits_empty_append. reflexivity.
+  - apply not_ok_bind. exact H.
+  - apply not_ok_bind. exact H.
+Qed.
+
+Lemma stashed_content m ft x w1 :
+  with_buffer m w1 (fun w => scope_stashed w (fun w => write_ty m ft x w)) =
+  if wopen w1 then let! sub := write_ty m ft x w_empty in w_put w1 (wrap_open m (w_bits sub))
+  else let! w2 := write_ty m ft x (w_set_scope w1 None) in Ok (w_set_scope w2 (w_scope w1)).
+Proof.
+  rewrite (with_buffer_factor m w1 _ (scope_nat_stashed _)).
+  rewrite !with_buffer_none by reflexivity. rewrite !scope_stashed_none by reflexivity.
+  destruct (wopen w1).
+  - destruct (write_ty m ft x w_empty) as [sub| |]; reflexivity.
+  - destruct (write_ty m ft x (w_set_scope w1 None)) as [w2| |]; reflexivity.
+Qed.
+
+Lemma wfield_spec m k ft ov w sc : Wprop m ft -> wst_wf w -> w_scope w = Some sc ->
+  match enc_field m (k, ft) ov with
+  | Ok (p, b) =>
+      wfield m (k, ft) ov w =
+      let! w1 := write_into_field m w sc (is_optk k) p in
+      if p then wcontent m (wraps k ft) w1 b else Ok w1
+  | _ => is_ok (wfield m (k, ft) ov w) = false
+  end.
+Proof.
+  intros IH Hw Hsc.
+  assert (Hentry : forall o p, write_bit_field_entry m w o p = write_into_field m w sc o p).
+  { intros o p. unfold write_bit_field_entry. rewrite Hsc. reflexivity. }
+  assert (Hstash : forall x o,
+    match enc m ft x with
+    | Ok b => (let! w1 := write_into_field m w sc o true in
+               with_buffer m w1 (fun w => scope_stashed w (fun w => write_ty m ft x w)))
+              = let! w1 := write_into_field m w sc o true in wcontent m true w1 b
+    | _ => is_ok (let! w1 := write_into_field m w sc o true in
+               with_buffer m w1 (fun w => scope_stashed w (fun w => write_ty m ft x w))) = false
+    end).
+  { intros x o. destruct (write_into_field m w sc o true) as [w1| |] eqn:E1; cbn [bind];
+      try (destruct (enc m ft x); reflexivity).
+    destruct (write_into_field_inv m w sc o true w1 Hw Hsc E1) as [Hw1 _].
+    rewrite stashed_content. unfold wcontent. rewrite andb_true_r.
+    pose proof (content_direct m ft x w1 IH Hw1) as Hd. pose proof (content_wrapped m ft x w1 IH) as Hwr.
+    destruct (enc m ft x) as [b| |]; destruct (wopen w1); assumption. }
+  destruct k as [| |d]; destruct ov as [x|]; cbn [enc_field wfield is_optk wraps]; try reflexivity.
+  - (* mandatory *)
+    destruct (shape ft x) eqn:Esh.
+    2:{ destruct (write_ty_shape m ft x w Esh) as [-> ->]. reflexivity. }
+    rewrite (write_ty_factor m ft x w Esh), Hentry.
+    destruct (write_into_field m w sc false true) as [w1| |] eqn:E1; cbn [bind].
+    2,3: destruct (enc m ft x); cbn [bind]; rewrite ?E1; reflexivity.
+    destruct (write_into_field_inv m w sc false true w1 Hw Hsc E1) as [Hw1 _].
+    unfold wcontent.
+    pose proof (content_direct m ft x w1 IH Hw1) as Hd. pose proof (content_wrapped m ft x w1 IH) as Hwr.
+    destruct (enc m ft x) as [b| |]; cbn [bind]; rewrite ?E1; cbn [bind];
+      destruct (wopen w1 && negb (is_choice ft)); assumption.
+  - (* OPTIONAL present *)
+    rewrite Hentry. cbn [is_some]. specialize (Hstash x true).
+    destruct (enc m ft x) as [b| |]; cbn [bind]; exact Hstash.
+  - (* OPTIONAL absent *)
+    rewrite Hentry. cbn [is_some]. destruct (write_into_field m w sc true false); reflexivity.
+  - (* DEFAULT *)
+    cbv zeta. rewrite Hentry. destruct (val_eqb d x); cbn [negb].
+    + destruct (write_into_field m w sc true false); reflexivity.
+    + specialize (Hstash x true). destruct (enc m ft x) as [b| |]; cbn [bind]; exact Hstash.
+Qed.
+
+
+
+Lemma wfield_ok_inv m k ft ov w sc w' : Wprop m ft -> wst_wf w -> w_scope w = Some sc ->
+  wfield m (k, ft) ov w = Ok w' -> wst_wf w' /\ exists sc', w_scope w' = Some sc'.
+Proof.
+  intros IH Hw Hsc H. pose proof (wfield_spec m k ft ov w sc IH Hw Hsc) as S.
+  destruct (enc_field m (k, ft) ov) as [[p b]| |]; try (rewrite H in S; discriminate S).
+  rewrite S in H. destruct (write_into_field m w sc (is_optk k) p) as [w1| |] eqn:E1; cbn [bind] in H; try discriminate H.
+  destruct (write_into_field_inv m w sc _ _ w1 Hw Hsc E1) as [Hw1 [sc1 Hsc1]].
+  destruct p; [|injection H as <-; split; [auto|eexists; eauto]].
+  unfold wcontent in H. destruct (wopen w1 && wraps k ft).
+  - destruct (wrap_open m b); cbn [w_put bind] in H; try discriminate H. injection H as <-.
+    split; [apply w_append_wf; auto|eexists; exact Hsc1].
+  - injection H as <-. split; [apply w_append_wf; auto|eexists; exact Hsc1].
+Qed.
+
+Lemma wfields_fail m : forall fs vals w sc, Forall (fun f => Wprop m (snd f)) fs ->
+  wst_wf w -> w_scope w = Some sc -> is_ok (enc_fields m fs vals) = false ->
+  is_ok (wfields m fs vals w) = false.
+Proof.
+  induction fs as [|[k ft] fs IHl]; intros vals w sc F Hw Hsc H; [discriminate H|].
+  destruct vals as [|ov vals]; [rewrite wfields_nil_vals; reflexivity|].
+  apply Forall_cons_iff in F. destruct F as [Hf F]. cbn [snd] in Hf.
+  rewrite enc_fields_cons in H. rewrite wfields_cons.
+  pose proof (wfield_spec m k ft ov w sc Hf Hw Hsc) as S.
+  destruct (enc_field m (k, ft) ov) as [[p b]| |]; cbn [bind] in H; try (apply not_ok_bind; exact S).
+  destruct (wfield m (k, ft) ov w) as [w'| |] eqn:E; cbn [bind]; try reflexivity.
+  destruct (wfield_ok_inv m k ft ov w sc w' Hf Hw Hsc E) as [Hw' [sc' Hsc']].
+  apply (IHl vals w' sc' F Hw' Hsc').
+  destruct (enc_fields m fs vals); [discriminate H|reflexivity|reflexivity].
+Qed.
+
+Lemma enc_field_absent m f ov b : enc_field m f ov = Ok (false, b) -> b = [].
+Proof.
+  destruct f as [[| |d] ft], ov as [x|]; cbn [enc_field]; intros H; try discriminate H.
+  - destruct (enc m ft x); discriminate H.
+  - destruct (enc m ft x); discriminate H.
+  - injection H as <-. reflexivity.
+  - destruct (val_eqb d x); [injection H as <-; reflexivity|]. destruct (enc m ft x); discriminate H.
+Qed.
+
+(** ** the states of the field walk, relative to the sink [w0] before the SEQUENCE *)
+Definition wstate (w0 : wst) (X : bits) (sc : scope) : wst := w_set_scope (w_append w0 X) (Some sc).
+
+Lemma wstate_wf w0 X sc : wst_wf w0 -> wst_wf (wstate w0 X sc).
+Proof. intros H. apply w_set_scope_wf, w_append_wf, H. Qed.
+Lemma wstate_append w0 X sc b : w_append (wstate w0 X sc) b = wstate w0 (X ++ b) sc.
+Proof. unfold wstate. rewrite <- w_set_scope_append, w_append_app. reflexivity. Qed.
+Lemma wstate_patch w0 A old B sc bit : wst_wf w0 ->
+  w_patch (wstate w0 (A ++ old :: B) sc) (w_n w0 + bl A) bit = Ok (wstate w0 (A ++ bit :: B) sc).
+Proof. intros H. apply w_patch_spec. exact H. Qed.
+
+Definition xinfo := option (N * N * N).
+Definition root_scope (x : xinfo) (a b : N) : scope :=
+  match x with None => OptBitField a b | Some (bp, c, nx) => ExtSeq bp (Some (a, b)) c nx end.
+Definition xsub (x : xinfo) (n : nat) : xinfo :=
+  match x with None => None | Some (bp, c, nx) => Some (bp, c - N.of_nat n, nx) end.
+Definition xge (x : xinfo) (n : nat) : Prop :=
+  match x with None => True | Some (_, c, _) => N.of_nat n <= c end.
+
+Definition rstate (w0 : wst) (Pre : bits) (k : nat) (P : bits) (x : xinfo) : wst :=
+  wstate w0 (Pre ++ repeat false k ++ P)
+    (root_scope x (w_n w0 + bl Pre) (w_n w0 + bl Pre + N.of_nat k)).
+Definition rscope (w0 : wst) (Pre : bits) (k : nat) (x : xinfo) : scope :=
+  root_scope x (w_n w0 + bl Pre) (w_n w0 + bl Pre + N.of_nat k).
+
+Lemma entry_root m w0 Pre k P x (o p : bool) : wst_wf w0 -> (o = true -> (1 <= k)%nat) -> xge x 1 ->
+  write_into_field m (rstate w0 Pre k P x) (rscope w0 Pre k x) o p =
+  Ok (if o then rstate w0 (Pre ++ [p]) (k - 1) P (xsub x 1) else rstate w0 Pre k P (xsub x 1)).
+Proof.
+  intros Hw Hk Hx. unfold rstate, rscope.
+  assert (Hpatch : o = true ->
+    w_patch (wstate w0 (Pre ++ repeat false k ++ P) (root_scope x (w_n w0 + bl Pre) (w_n w0 + bl Pre + N.of_nat k)))
+            (w_n w0 + bl Pre) p
+    = Ok (wstate w0 ((Pre ++ [p]) ++ repeat false (k - 1) ++ P) (root_scope x (w_n w0 + bl Pre) (w_n w0 + bl Pre + N.of_nat k)))).
+  { intros Ho. specialize (Hk Ho). destruct k as [|k]; [lia|]. cbn [repeat app].
+    rewrite wstate_patch by exact Hw. rewrite <- app_assoc. cbn [app]. replace (S k - 1)%nat with k by lia. reflexivity. }
+  assert (Hbl : bl (Pre ++ [p]) = bl Pre + 1) by (rewrite bl_app; reflexivity).
+  destruct x as [[[bp c] nx]|]; cbn [root_scope xsub xge write_into_field] in *.
+  - destruct (N.eqb_spec c 0) as [E|E]; [lia|]. change (N.of_nat 1) with 1.
+    destruct o.
+    + rewrite Hpatch by reflexivity. cbn [bind]. specialize (Hk eq_refl).
+      f_equal. unfold wstate. cbn [w_set_scope w_append w_rbits w_n w_scope]. rewrite Hbl.
+      rewrite w_set_scope_set.
+      replace (w_n w0 + (bl Pre + 1)) with (w_n w0 + bl Pre + 1) by lia.
+      replace (w_n w0 + bl Pre + 1 + N.of_nat (k - 1)) with (w_n w0 + bl Pre + N.of_nat k) by lia.
+      reflexivity.
+    + reflexivity.
+  - destruct o.
+    + rewrite Hpatch by reflexivity. cbn [bind]. specialize (Hk eq_refl).
+      f_equal. unfold wstate. cbn [w_set_scope w_append w_rbits w_n w_scope]. rewrite Hbl.
+      rewrite w_set_scope_set.
+      replace (w_n w0 + (bl Pre + 1)) with (w_n w0 + bl Pre + 1) by lia.
+      replace (w_n w0 + bl Pre + 1 + N.of_nat (k - 1)) with (w_n w0 + bl Pre + N.of_nat k) by lia.
+      reflexivity.
+    + reflexivity.
+Qed.
+
+Lemma rstate_append w0 Pre k P x b : w_append (rstate w0 Pre k P x) b = rstate w0 Pre k (P ++ b) x.
+Proof. unfold rstate. rewrite wstate_append, <- !app_assoc. reflexivity. Qed.
+Lemma rstate_wopen w0 Pre k P x : wopen (rstate w0 Pre k P x) = false.
+Proof. destruct x as [[[bp c] nx]|]; reflexivity. Qed.
+Lemma rstate_scope w0 Pre k P x : w_scope (rstate w0 Pre k P x) = Some (rscope w0 Pre k x).
+Proof. reflexivity. Qed.
+Lemma rstate_wf w0 Pre k P x : wst_wf w0 -> wst_wf (rstate w0 Pre k P x).
+Proof. apply wstate_wf. Qed.
+
+Lemma xsub_xsub x a b : xsub (xsub x a) b = xsub x (a + b).
+Proof. destruct x as [[[bp c] nx]|]; cbn [xsub]; [|reflexivity]. do 3 f_equal. lia. Qed.
+
+Lemma root_walk m w0 : wst_wf w0 -> forall rfs vals fes Pre k P x,
+  Forall (fun f => Wprop m (snd f)) rfs -> enc_fields m rfs vals = Ok fes ->
+  (nopt rfs <= k)%nat -> xge x (length rfs) ->
+  wfields m rfs vals (rstate w0 Pre k P x) =
+  Ok (rstate w0 (Pre ++ flags_of rfs fes) (k - nopt rfs) (P ++ payload_of fes) (xsub x (length rfs))).
+Proof.
+  intros Hw. induction rfs as [|[kd ft] rfs IHl]; intros vals fes Pre k P x F He Hk Hx.
+  - cbn in He. injection He as <-. cbn [wfields flags_of payload_of concat map nopt filter length].
+    rewrite !app_nil_r, Nat.sub_0_r. destruct x as [[[bp c] nx]|]; cbn [xsub]; rewrite ?N.sub_0_r; reflexivity.
+  - destruct vals as [|ov vals]; [rewrite enc_fields_nil_vals in He; discriminate He|].
+    apply Forall_cons_iff in F. destruct F as [Hf F]. cbn [snd] in Hf.
+    rewrite enc_fields_cons in He. rewrite wfields_cons.
+    pose proof (wfield_spec m kd ft ov (rstate w0 Pre k P x) _ Hf (rstate_wf _ _ _ _ _ Hw) (rstate_scope _ _ _ _ _)) as S.
+    destruct (enc_field m (kd, ft) ov) as [[p b]| |] eqn:Ef; cbn [bind] in He; try discriminate He.
+    destruct (enc_fields m rfs vals) as [fes'| |] eqn:Er; cbn [bind] in He; try discriminate He. injection He as <-.
+    unfold nopt in Hk. cbn [filter fst] in Hk. cbn [length] in Hx.
+    assert (Hx1 : xge x 1) by (destruct x as [[[bp c] nx]|]; cbn [xge] in *; lia).
+    rewrite S, entry_root; [|exact Hw|intros Ho; rewrite Ho in Hk; cbn [length] in Hk; lia|exact Hx1].
+    cbn [bind].
+    assert (Hb : p = false -> b = []) by (intros ->; eapply enc_field_absent; exact Ef).
+    assert (Estep : (if p then wcontent m (wraps kd ft)
+                       (if is_optk kd then rstate w0 (Pre ++ [p]) (k - 1) P (xsub x 1) else rstate w0 Pre k P (xsub x 1)) b
+                     else Ok (if is_optk kd then rstate w0 (Pre ++ [p]) (k - 1) P (xsub x 1) else rstate w0 Pre k P (xsub x 1)))
+                    = Ok (rstate w0 (Pre ++ (if is_optk kd then [p] else [])) (k - (if is_optk kd then 1 else 0)) (P ++ b) (xsub x 1))).
+    { destruct p.
+      - unfold wcontent. destruct (is_optk kd); rewrite rstate_wopen; cbn [andb]; rewrite rstate_append, ?app_nil_r, ?Nat.sub_0_r; reflexivity.
+      - rewrite (Hb eq_refl), !app_nil_r. destruct (is_optk kd); rewrite ?app_nil_r, ?Nat.sub_0_r; reflexivity. }
+    rewrite Estep. cbn [bind].
+    rewrite (IHl vals fes' _ _ _ _ F Er).
+    + cbn [flags_of payload_of map concat snd length]. unfold nopt. cbn [filter fst].
+      rewrite xsub_xsub, <- !app_assoc. f_equal. f_equal.
+      destruct (is_optk kd); cbn [length]; lia.
+    + unfold nopt. destruct (is_optk kd); cbn [length] in Hk; lia.
+    + destruct x as [[[bp c] nx]|]; cbn [xge xsub] in *; lia.
+Qed.
+
+(** additions *)
+Definition astate (w0 : wst) (Pre : bits) (k : nat) (P : bits) : wst :=
+  wstate w0 (Pre ++ repeat true k ++ P) (AllBitField (w_n w0 + bl Pre) (w_n w0 + bl Pre + N.of_nat k)).
+Definition ascope (w0 : wst) (Pre : bits) (k : nat) : scope :=
+  AllBitField (w_n w0 + bl Pre) (w_n w0 + bl Pre + N.of_nat k).
+
+Lemma entry_all m w0 Pre k P (o p : bool) : wst_wf w0 -> (1 <= k)%nat ->
+  write_into_field m (astate w0 Pre k P) (ascope w0 Pre k) o p = Ok (astate w0 (Pre ++ [p]) (k - 1) P).
+Proof.
+  intros Hw Hk. unfold astate, ascope. cbn [write_into_field].
+  destruct k as [|k]; [lia|]. cbn [repeat app]. rewrite wstate_patch by exact Hw. cbn [bind].
+  f_equal. unfold wstate. rewrite w_set_scope_set, <- app_assoc. cbn [app]. replace (S k - 1)%nat with k by lia.
+  rewrite bl_app. change (bl [p]) with 1.
+  replace (w_n w0 + (bl Pre + 1)) with (w_n w0 + bl Pre + 1) by lia.
+  replace (w_n w0 + bl Pre + 1 + N.of_nat k) with (w_n w0 + bl Pre + N.of_nat (S k)) by lia. reflexivity.
+Qed.
+Lemma astate_append w0 Pre k P b : w_append (astate w0 Pre k P) b = astate w0 Pre k (P ++ b).
+Proof. unfold astate. rewrite wstate_append, <- !app_assoc. reflexivity. Qed.
+
+Lemma all_walk m w0 : wst_wf w0 -> forall afs vals fes Pre k P,
+  Forall (fun f => Wprop m (snd f)) afs -> enc_fields m afs vals = Ok fes -> (length afs <= k)%nat ->
+  wfields m afs vals (astate w0 Pre k P) =
+  let! ap := add_payloads m afs fes in
+  Ok (astate w0 (Pre ++ map fst fes) (k - length afs) (P ++ ap)).
+Proof.
+  intros Hw. induction afs as [|[kd ft] afs IHl]; intros vals fes Pre k P F He Hk.
+  - cbn in He. injection He as <-. cbn [wfields add_payloads bind map length]. rewrite !app_nil_r, Nat.sub_0_r. reflexivity.
+  - destruct vals as [|ov vals]; [rewrite enc_fields_nil_vals in He; discriminate He|].
+    apply Forall_cons_iff in F. destruct F as [Hf F]. cbn [snd] in Hf.
+    rewrite enc_fields_cons in He. rewrite wfields_cons.
+    pose proof (wfield_spec m kd ft ov (astate w0 Pre k P) (ascope w0 Pre k) Hf (wstate_wf _ _ _ Hw) eq_refl) as S.
+    destruct (enc_field m (kd, ft) ov) as [[p b]| |] eqn:Ef; cbn [bind] in He; try discriminate He.
+    destruct (enc_fields m afs vals) as [fes'| |] eqn:Er; cbn [bind] in He; try discriminate He. injection He as <-.
+    cbn [length] in Hk. rewrite S, entry_all by (auto; lia). cbn [bind add_payloads].
+    assert (Hb : p = false -> b = []) by (intros ->; eapply enc_field_absent; exact Ef).
+    assert (Estep : (if p then wcontent m (wraps kd ft) (astate w0 (Pre ++ [p]) (k - 1) P) b
+                     else Ok (astate w0 (Pre ++ [p]) (k - 1) P))
+                    = let! y := (if p && wraps kd ft then wrap_open m b else Ok b) in
+                      Ok (astate w0 (Pre ++ [p]) (k - 1) (P ++ y))).
+    { destruct p; cbn [andb].
+      - unfold wcontent. change (wopen (astate w0 (Pre ++ [true]) (k - 1) P)) with true. cbn [andb].
+        destruct (wraps kd ft).
+        + destruct (wrap_open m b); cbn [w_put bind]; try reflexivity. rewrite astate_append. reflexivity.
+        + cbn [bind]. rewrite astate_append. reflexivity.
+      - cbn [bind]. rewrite (Hb eq_refl), app_nil_r. reflexivity. }
+    rewrite Estep. destruct (if p && wraps kd ft then wrap_open m b else Ok b) as [y| |]; cbn [bind]; try reflexivity.
+    rewrite (IHl vals fes' _ _ _ F Er) by lia.
+    destruct (add_payloads m afs fes') as [r| |]; cbn [bind]; try reflexivity.
+    cbn [map fst length]. rewrite <- !app_assoc. cbn [app]. do 2 f_equal. lia.
+Qed.
+
+Lemma empty_walk m w0 X : forall afs vals fes,
+  Forall (fun f => Wprop m (snd f)) afs -> wst_wf w0 -> enc_fields m afs vals = Ok fes ->
+  wfields m afs vals (wstate w0 X ExtSeqEmpty) =
+  if existsb fst fes then Err E_EXT_INCONSISTENT else Ok (wstate w0 X ExtSeqEmpty).
+Proof.
+  induction afs as [|[kd ft] afs IHl]; intros vals fes F Hw He.
+  - cbn in He. injection He as <-. reflexivity.
+  - destruct vals as [|ov vals]; [rewrite enc_fields_nil_vals in He; discriminate He|].
+    apply Forall_cons_iff in F. destruct F as [Hf F]. cbn [snd] in Hf.
+    rewrite enc_fields_cons in He. rewrite wfields_cons.
+    pose proof (wfield_spec m kd ft ov (wstate w0 X ExtSeqEmpty) ExtSeqEmpty Hf (wstate_wf _ _ _ Hw) eq_refl) as S.
+    destruct (enc_field m (kd, ft) ov) as [[p b]| |] eqn:Ef; cbn [bind] in He; try discriminate He.
+    destruct (enc_fields m afs vals) as [fes'| |] eqn:Er; cbn [bind] in He; try discriminate He. injection He as <-.
+    rewrite S. cbn [write_into_field existsb fst]. destruct p; cbn [bind orb]; [reflexivity|].
+    apply IHl; assumption.
+Qed.
+
+Lemma entry_trans m w0 R opt nx (o p : bool) : wst_wf w0 -> 1 <= nx ->
+  write_into_field m (wstate w0 (false :: R) (ExtSeq (w_n w0) opt 0 nx)) (ExtSeq (w_n w0) opt 0 nx) o p =
+  if p then
+    let! ns := w_normally_small m (nx - 1) in
+    Ok (astate w0 (true :: R ++ ns ++ [true]) (N.to_nat nx - 1) [])
+  else Ok (wstate w0 (false :: R) ExtSeqEmpty).
+Proof.
+  intros Hw Hnx. cbn [write_into_field]. change (0 =? 0) with true. cbv iota.
+  pose proof (wstate_patch w0 [] false R (ExtSeq (w_n w0) opt 0 nx) p Hw) as Hp.
+  cbn [app] in Hp. rewrite bl_nil, N.add_0_r in Hp. rewrite Hp. cbn [bind].
+  destruct p; [|reflexivity].
+  rewrite usub_ok by exact Hnx. cbn [bind].
+  destruct (w_normally_small m (nx - 1)) as [ns| |]; cbn [w_put bind]; try reflexivity.
+  f_equal. rewrite !wstate_append. unfold astate, wstate. cbn [w_set_scope w_append w_n w_rbits w_scope].
+  assert (Er : repeat true (N.to_nat nx) = [true] ++ repeat true (N.to_nat nx - 1)).
+  { replace (N.to_nat nx) with (S (N.to_nat nx - 1)) at 1 by lia. reflexivity. }
+  rewrite Er. rewrite app_nil_r.
+  assert (Ebits : (true :: R) ++ ns ++ [true] ++ repeat true (N.to_nat nx - 1)
+                  = (true :: R ++ ns ++ [true]) ++ repeat true (N.to_nat nx - 1)).
+  { cbn [app]. rewrite <- !app_assoc. reflexivity. }
+  rewrite <- app_assoc, Ebits. rewrite w_set_scope_set. f_equal. f_equal. unfold bl.
+  f_equal.
+  - cbn [length app]. repeat (rewrite app_length; cbn [length]). lia.
+  - cbn [length app]. repeat (rewrite ?app_length, ?repeat_length; cbn [length]). lia.
+Qed.
+
+
+
+(* the descriptor constants of a SEQUENCE, as derived by the compiler *)
+Definition seq_consts_ok (fs : list (fkind * ty)) (so fc : N) (ea : option N) : Prop :=
+  fc = N.of_nat (length fs) /\ fc < SIZE_LIMIT /\
+  match ea with Some e => e < fc | None => True end /\
+  so = N.of_nat (nopt (firstn (root_len fs ea) fs)).
+
+Lemma flags_of_length : forall fs fes, length fes = length fs -> length (flags_of fs fes) = nopt fs.
+Proof.
+  induction fs as [|[k ft] fs IH]; intros [|[p b] fes] H; try discriminate H; [reflexivity|].
+  cbn [flags_of]. unfold nopt. cbn [filter fst]. rewrite app_length, IH by (cbn [length] in H; lia).
+  unfold nopt. destruct (is_optk k); cbn [length]; lia.
+Qed.
+
+Lemma init_none w so : w_scope w = None ->
+  w_set_scope (w_append w (repeat false so)) (Some (OptBitField (w_n w) (w_n w + N.of_nat so)))
+  = rstate w [] so [] None.
+Proof.
+  intros _. unfold rstate, wstate. cbn [root_scope app]. rewrite app_nil_r, bl_nil, N.add_0_r. reflexivity.
+Qed.
+Lemma init_ext w so e nx :
+  w_set_scope (w_append (w_append w [false]) (repeat false so))
+    (Some (ExtSeq (w_n w) (Some (w_n (w_append w [false]), w_n (w_append w [false]) + N.of_nat so)) e nx))
+  = rstate w [false] so [] (Some (w_n w, e, nx)).
+Proof.
+  unfold rstate, wstate. cbn [root_scope]. rewrite w_append_app, app_nil_r. reflexivity.
+Qed.
+
+Lemma set_none_wstate w X sc : w_scope w = None -> w_set_scope (wstate w X sc) None = w_append w X.
+Proof. intros H. unfold wstate. rewrite w_set_scope_set. apply set_none_append. exact H. Qed.
+
+Lemma scope_pushed_eq m w sc f : w_scope w = None ->
+  scope_pushed m w sc f =
+  let! w' := f (w_set_scope w (Some sc)) in
+  if debug_asserts m && negb (match w_scope w' with Some s => scope_exhausted s | None => false end)
+  then Panic P_ASSERT else Ok (w_set_scope w' None).
+Proof. intros H. unfold scope_pushed. rewrite H. reflexivity. Qed.
+
+Lemma pushed_tail m w X sc : w_scope w = None -> scope_exhausted sc = true ->
+  (if debug_asserts m && negb (match w_scope (wstate w X sc) with Some s => scope_exhausted s | None => false end)
+   then Panic P_ASSERT else Ok (w_set_scope (wstate w X sc) None)) = Ok (w_append w X).
+Proof.
+  intros Hs He. unfold wstate at 1. cbn [w_scope w_set_scope]. rewrite He. cbn [negb]. rewrite andb_false_r.
+  rewrite set_none_wstate by exact Hs. reflexivity.
+Qed.
+Lemma exh_all a : scope_exhausted (AllBitField a (a + N.of_nat 0)) = true.
+Proof. cbn [scope_exhausted]. change (N.of_nat 0) with 0. rewrite N.add_0_r. apply N.eqb_refl. Qed.
+Lemma exh_root x a : scope_exhausted (root_scope x a (a + N.of_nat 0)) = true.
+Proof.
+  change (N.of_nat 0) with 0. rewrite N.add_0_r.
+  destruct x as [[[bp c] nx]|]; cbn [root_scope scope_exhausted]; apply N.eqb_refl.
+Qed.
+
+Lemma firstn_skipn_len {A} (l : list A) n : (n <= length l)%nat -> length (firstn n l) = n.
+Proof. intros H. rewrite firstn_length. lia. Qed.
+
+Lemma seq_write_exact m fs so fc ea vals fes w :
+  Forall (fun f => Wprop m (snd f)) fs -> seq_consts_ok fs so fc ea ->
+  wst_wf w -> w_scope w = None -> enc_fields m fs vals = Ok fes ->
+  write_ty m (TSeq fs so fc ea) (VSeq vals) w = w_put w (seq_assemble m fs fes ea).
+Proof.
+  intros F (Hfc & Hlim & Hea & Hso) Hw Hs He.
+  pose proof (enc_fields_length m fs vals fes He) as Hlen.
+  rewrite write_ty_seq_eq, entry_none by exact Hs. cbn [bind]. rewrite with_buffer_none by exact Hs. cbv zeta.
+  destruct ea as [e|]; cbn [root_len] in Hso.
+  - (* extensible *)
+    rewrite usub_ok by lia. cbn [bind].
+    rewrite scope_pushed_eq by exact Hs.
+    set (kr := S (N.to_nat e)) in *.
+    assert (Hkr : (kr <= length fs)%nat) by (unfold kr; lia).
+    rewrite Hso, w_set_scope_append, w_set_scope_append. rewrite <- w_set_scope_append, <- w_set_scope_append.
+    replace (w_n (w_append w [false]) + N.of_nat (nopt (firstn kr fs)))
+      with (w_n (w_append w [false]) + N.of_nat (N.to_nat (N.of_nat (nopt (firstn kr fs))))) by lia.
+    rewrite Nat2N.id.
+    replace (e + 1) with (N.of_nat kr) by (unfold kr; lia).
+    rewrite init_ext.
+    rewrite <- (firstn_skipn kr fs) at 1. rewrite wfields_app.
+    rewrite <- (firstn_skipn kr fs) in He. rewrite enc_fields_app in He.
+    rewrite firstn_skipn_len in * by exact Hkr.
+    destruct (enc_fields m (firstn kr fs) vals) as [rfe| |] eqn:Er; cbn [bind] in He; try discriminate He.
+    destruct (enc_fields m (skipn kr fs) (skipn kr vals)) as [afe| |] eqn:Ea; cbn [bind] in He; try discriminate He.
+    injection He as <-.
+    pose proof (enc_fields_length _ _ _ _ Er) as Hlr. rewrite firstn_skipn_len in Hlr by exact Hkr.
+    pose proof (enc_fields_length _ _ _ _ Ea) as Hla.
+    assert (Hla' : length afe = (length fs - kr)%nat) by (rewrite Hla, skipn_length; reflexivity).
+    assert (F1 : Forall (fun f => Wprop m (snd f)) (firstn kr fs)) by (apply Forall_firstn; exact F).
+    assert (F2 : Forall (fun f => Wprop m (snd f)) (skipn kr fs)) by (apply Forall_skipn; exact F).
+    rewrite (root_walk m w Hw _ vals rfe _ _ _ _ F1 Er);
+      [|lia|cbn [xge]; rewrite firstn_skipn_len by exact Hkr; lia].
+    cbn [bind]. rewrite firstn_skipn_len by exact Hkr. rewrite Nat.sub_diag. cbn [xsub]. rewrite N.sub_diag.
+    unfold seq_assemble. fold kr.
+    rewrite firstn_app, skipn_app, Hlr, Nat.sub_diag, (@firstn_all2 _ kr rfe), (@skipn_all2 _ kr rfe) by lia.
+    cbn [firstn skipn app]. rewrite app_nil_r.
+    set (nx := fc - N.of_nat kr) in *.
+    assert (Hnx : nx = N.of_nat (length afe)) by (unfold nx; lia).
+    destruct (skipn kr fs) as [|[k1 ft1] afs] eqn:Eafs.
+    + (* no addition in the type *)
+      destruct afe; [|discriminate Hla]. cbn [wfields bind ext_part app].
+      unfold rstate. rewrite pushed_tail by (exact Hs || apply exh_root).
+      cbn [repeat app w_put bind]. rewrite !app_nil_r. reflexivity.
+    + destruct (skipn kr vals) as [|ov1 avals] eqn:Eav; [rewrite enc_fields_nil_vals in Ea; discriminate Ea|].
+      rewrite enc_fields_cons in Ea.
+      apply Forall_cons_iff in F2. destruct F2 as [Hf1 F2]. cbn [snd] in Hf1.
+      destruct (enc_field m (k1, ft1) ov1) as [[p1 b1]| |] eqn:Ef1; cbn [bind] in Ea; try discriminate Ea.
+      destruct (enc_fields m afs avals) as [afe'| |] eqn:Ea'; cbn [bind] in Ea; try discriminate Ea.
+      injection Ea as <-. cbn [length] in Hla, Hnx.
+      rewrite wfields_cons.
+      match goal with |- context [wfield m (k1, ft1) ov1 ?st] =>
+        pose proof (wfield_spec m k1 ft1 ov1 st _ Hf1 (wstate_wf _ _ _ Hw) eq_refl) as S end.
+      rewrite Ef1 in S. rewrite S. clear S.
+      unfold rstate, rscope. cbn [root_scope app repeat].
+      rewrite (entry_trans m w (flags_of (firstn kr fs) rfe ++ payload_of rfe) _ nx (is_optk k1) p1 Hw ltac:(lia)).
+      cbn [ext_part length fst].
+      replace (N.of_nat (S (length afe')) - 1) with (nx - 1) by lia.
+      destruct p1.
+      * destruct (w_normally_small m (nx - 1)) as [ns| |]; cbn [bind]; try reflexivity.
+        cbn [add_payloads andb].
+        unfold wcontent. change (wopen (astate w _ _ _)) with true. cbn [andb].
+        assert (Estep : (if wraps k1 ft1
+                         then w_put (astate w (true :: (flags_of (firstn kr fs) rfe ++ payload_of rfe) ++ ns ++ [true]) (N.to_nat nx - 1) []) (wrap_open m b1)
+                         else Ok (w_append (astate w (true :: (flags_of (firstn kr fs) rfe ++ payload_of rfe) ++ ns ++ [true]) (N.to_nat nx - 1) []) b1))
+                        = let! y := (if wraps k1 ft1 then wrap_open m b1 else Ok b1) in
+                          Ok (astate w (true :: (flags_of (firstn kr fs) rfe ++ payload_of rfe) ++ ns ++ [true]) (N.to_nat nx - 1) y)).
+        { destruct (wraps k1 ft1).
+          - destruct (wrap_open m b1); cbn [w_put bind]; try reflexivity. rewrite astate_append. reflexivity.
+          - cbn [bind]. rewrite astate_append. reflexivity. }
+        rewrite Estep. clear Estep.
+        destruct (if wraps k1 ft1 then wrap_open m b1 else Ok b1) as [y| |]; cbn [bind]; try reflexivity.
+        rewrite (all_walk m w Hw afs avals afe' _ _ _ F2 Ea') by lia.
+        destruct (add_payloads m afs afe') as [ap| |]; cbn [bind]; try reflexivity.
+        replace (N.to_nat nx - 1 - length afs)%nat with 0%nat by lia.
+        unfold astate. rewrite pushed_tail by (exact Hs || apply exh_all).
+        cbn [repeat app w_put bind map fst].
+        do 3 f_equal. rewrite <- !app_assoc. cbn [app]. reflexivity.
+      * cbn [bind].
+        rewrite (empty_walk m w _ afs avals afe' F2 Hw Ea').
+        destruct (existsb fst afe'); cbn [bind]; [reflexivity|].
+        rewrite pushed_tail by (exact Hs || reflexivity).
+        cbn [w_put bind app]. rewrite !app_nil_r. reflexivity.
+  - (* not extensible *)
+    rewrite scope_pushed_eq by exact Hs. rewrite firstn_all in Hso.
+    rewrite Hso, Nat2N.id, init_none by exact Hs.
+    rewrite (root_walk m w Hw fs vals fes _ _ _ _ F He) by (cbn [xge]; auto).
+    cbn [bind xsub]. rewrite Nat.sub_diag.
+    unfold rstate. rewrite pushed_tail by (exact Hs || apply exh_root).
+    cbn [repeat app seq_assemble w_put bind]. reflexivity.
+Qed.
+
+
+
+Lemma W_seq m fs so fc ea :
+  Forall (fun f => Wprop m (snd f)) fs -> seq_consts_ok fs so fc ea -> Wprop m (TSeq fs so fc ea).
+Proof.
+  intros F Hc v w Hw Hs. destruct v; try reflexivity. rewrite enc_seq_eq.
+  destruct (enc_fields m fs fields) as [fes| |] eqn:E; cbn [bind].
+  - rewrite (seq_write_exact m fs so fc ea fields fes w F Hc Hw Hs E). apply wsim_put.
+  - cbn [wsim]. rewrite write_ty_seq_eq, entry_none by exact Hs. cbn [bind]. rewrite with_buffer_none by exact Hs.
+    cbv zeta. destruct Hc as (Hfc & Hlim & Hea & Hso).
+    destruct ea as [e0|]; [rewrite usub_ok by lia; cbn [bind]|]; rewrite scope_pushed_eq by exact Hs;
+      apply not_ok_bind; eapply (wfields_fail m fs fields _ _ F); try reflexivity;
+      try (rewrite E; reflexivity); apply w_set_scope_wf; repeat apply w_append_wf; exact Hw.
+  - cbn [wsim]. rewrite write_ty_seq_eq, entry_none by exact Hs. cbn [bind]. rewrite with_buffer_none by exact Hs.
+    cbv zeta. destruct Hc as (Hfc & Hlim & Hea & Hso).
+    destruct ea as [e0|]; [rewrite usub_ok by lia; cbn [bind]|]; rewrite scope_pushed_eq by exact Hs;
+      apply not_ok_bind; eapply (wfields_fail m fs fields _ _ F); try reflexivity;
+      try (rewrite E; reflexivity); apply w_set_scope_wf; repeat apply w_append_wf; exact Hw.
+Qed.
+
+Definition all_wf_fields :=
+  fix all (fs : list (fkind * ty)) : Prop :=
+    match fs with
+    | [] => True
+    | (k, ft) :: fs' => wf_ty ft /\ match k with FDef d => wf_val ft d | _ => True end /\ all fs'
+    end.
+Lemma all_wf_fields_Forall fs : all_wf_fields fs -> Forall (fun f => wf_ty (snd f)) fs.
+Proof.
+  induction fs as [|[k ft] fs IH]; intros H; [constructor|]. cbn [all_wf_fields] in H. destruct H as (H1 & _ & H3).
+  constructor; [exact H1|apply IH; exact H3].
+Qed.
+Lemma all_wf_ty_Forall alts : all_wf_ty alts -> Forall wf_ty alts.
+Proof.
+  induction alts as [|a alts IH]; intros H; [constructor|]. cbn [all_wf_ty] in H. destruct H as (H1 & H2).
+  constructor; [exact H1|apply IH; exact H2].
+Qed.
+Lemma wf_ty_seq fs so fc ea : wf_ty (TSeq fs so fc ea) <-> seq_consts_ok fs so fc ea /\ all_wf_fields fs.
+Proof. unfold seq_consts_ok. cbn [wf_ty]. fold all_wf_fields. tauto. Qed.
+
+(** the writer produces exactly the reference encoding, and fails exactly when it does *)
+Theorem write_enc m t : wf_ty t -> Wprop m t.
+Proof.
+  induction t as [| |k lo hi ext|c lo hi ext|lo hi ext|lo hi ext|e lo hi ext IH|fs so fc ea IH|alts std ext IH|vc std ext]
+    using ty_ind'; intros Hty.
+  1-6,10: intros v w Hw Hs;
+    match goal with |- wsim (write_ty _ ?t _ _) _ _ => pose proof (write_flat_eq m t v w Hs) as E end;
+    cbv beta iota in E; rewrite E; apply wsim_put.
+  - apply W_list. apply IH. cbn [wf_ty] in Hty. tauto.
+  - apply wf_ty_seq in Hty. destruct Hty as [Hc Hf]. apply W_seq; [|exact Hc].
+    apply all_wf_fields_Forall in Hf. rewrite Forall_forall in *. intros f Hin. apply IH; [exact Hin|apply Hf; exact Hin].
+  - apply W_choice. cbn [wf_ty] in Hty. destruct Hty as (_ & _ & _ & _ & Ha). apply all_wf_ty_Forall in Ha.
+    rewrite Forall_forall in *. intros a Hin. apply IH; [exact Hin|apply Ha; exact Hin].
+Qed.
+
+
+
+(** * SEQUENCE, reader side *)
+Definition rfield (m : mode) (f : fkind * ty) (r : rst) : res (option val * rst) :=
+  match f with
+  | (FReq, ft) => let! (x, r) := read_ty m ft r in Ok (Some x, r)
+  | (FOpt, ft) =>
+      let! (ob, r) := read_bit_field_entry m r true in
+      match ob with
+      | None => Panic P_UNWRAP
+      | Some true =>
+          let! (x, r) := rwith_buffer m r (fun r => rscope_stashed r (fun r => read_ty m ft r)) in Ok (Some x, r)
+      | Some false => Ok (None, r)
+      end
+  | (FDef d, ft) =>
+      let! (ob, r) := read_bit_field_entry m r true in
+      match ob with
+      | None => Panic P_UNWRAP
+      | Some true =>
+          let! (x, r) := rwith_buffer m r (fun r => rscope_stashed r (fun r => read_ty m ft r)) in Ok (Some x, r)
+      | Some false => Ok (Some d, r)
+      end
+  end.
+Fixpoint rwalk (m : mode) (fs : list (fkind * ty)) (r : rst) (acc : list (option val)) : res (list (option val) * rst) :=
+  match fs with
+  | [] => Ok (acc, r)
+  | f :: fs' => let! (ov, r) := rfield m f r in rwalk m fs' r (ov :: acc)
+  end.
+Definition rfields (m : mode) :=
+  fix fields (fs : list (fkind * ty)) (r : rst) (acc : list (option val)) : res (val * rst) :=
+    match fs with
+    | [] => Ok (VSeq (frev acc), r)
+    | (FReq, ft) :: fs' =>
+        let! (x, r) := read_ty m ft r in fields fs' r (Some x :: acc)
+    | (FOpt, ft) :: fs' =>
+        let! (ob, r) := read_bit_field_entry m r true in
+        match ob with
+        | None => Panic P_UNWRAP
+        | Some true =>
+            let! (x, r) := rwith_buffer m r (fun r => rscope_stashed r (fun r => read_ty m ft r)) in
+            fields fs' r (Some x :: acc)
+        | Some false => fields fs' r (None :: acc)
+        end
+    | (FDef d, ft) :: fs' =>
+        let! (ob, r) := read_bit_field_entry m r true in
+        match ob with
+        | None => Panic P_UNWRAP
+        | Some true =>
+            let! (x, r) := rwith_buffer m r (fun r => rscope_stashed r (fun r => read_ty m ft r)) in
+            fields fs' r (Some x :: acc)
+        | Some false => fields fs' r (Some d :: acc)
+        end
+    end.
+
+Lemma rfields_rwalk m : forall fs r acc,
+  rfields m fs r acc = let! (acc', r') := rwalk m fs r acc in Ok (VSeq (frev acc'), r').
+Proof.
+  induction fs as [|[[| |d] ft] fs IH]; intros r acc; cbn [rfields rwalk rfield]; [reflexivity| | |].
+  - destruct (read_ty m ft r) as [[x r1]| |]; cbn [bind]; try reflexivity. apply IH.
+  - destruct (read_bit_field_entry m r true) as [[[[|]|] r1]| |]; cbn [bind]; try reflexivity.
+    + destruct (rwith_buffer m r1 _) as [[x r2]| |]; cbn [bind]; try reflexivity. apply IH.
+    + apply IH.
+  - destruct (read_bit_field_entry m r true) as [[[[|]|] r1]| |]; cbn [bind]; try reflexivity.
+    + destruct (rwith_buffer m r1 _) as [[x r2]| |]; cbn [bind]; try reflexivity. apply IH.
+    + apply IH.
+Qed.
+
+Lemma rwalk_app m a : forall b r acc,
+  rwalk m (a ++ b) r acc = let! (acc', r') := rwalk m a r acc in rwalk m b r' acc'.
+Proof.
+  induction a as [|f a IH]; intros b r acc; cbn [app rwalk]; [reflexivity|].
+  destruct (rfield m f r) as [[ov r1]| |]; cbn [bind]; try reflexivity. apply IH.
+Qed.
+
+Lemma read_ty_seq_eq m fs so fc ea r :
+  read_ty m (TSeq fs so fc ea) r =
+  let! (_, r) := read_bit_field_entry_st m r false in
+  rwith_buffer m r (fun r =>
+    let bit_pos := s_pos (r_src r) in
+    let! (ext, r) := (match ea with Some _ => r_get r r_bit | None => Ok (false, r) end) in
+    let! rem := src_remaining m (r_src r) in
+    if rem <? so then Err E_END_OF_STREAM else
+    let start := s_pos (r_src r) in
+    let! stop := uadd m start so in
+    let r := r_set_src r (src_set_pos (r_src r) stop) in
+    match ea, ext with
+    | Some e, true =>
+        let! nx := usub m fc (e + 1) in
+        rscope_pushed m r (ExtSeq bit_pos (Some (start, stop)) (e + 1) nx)
+          (fun r => let! (v, r) := rfields m fs r [] in
+                    let! r := skip_unknown_extension_additions m r in Ok (v, r))
+    | _, _ => rscope_pushed m r (OptBitField start stop) (fun r => rfields m fs r [])
+    end).
+Proof. reflexivity. Qed.
+
+(** absolute positions *)
+Lemma bit_at_spec s0 A b B tail s' : rsrc s0 (A ++ b :: B) tail -> same_buf s0 s' ->
+  r_bit_at s' (s_pos s0 + bl A) = Ok b.
+Proof.
+  intros [(R & L & T) (E & H64)] (Ea & Et & El). unfold r_bit_at, src_set_pos, r_bit.
+  rewrite bl_app, bl_cons in L. cbn [s_pos s_len s_rest].
+  rewrite <- El, <- Ea. rewrite N.min_l by lia.
+  destruct (N.ltb_spec (s_pos s0 + bl A) (s_len s0)); [|lia].
+  replace (N.to_nat (s_pos s0 + bl A)) with (N.to_nat (s_pos s0) + length A)%nat by (unfold bl; lia).
+  rewrite <- skipn_skipn', <- E, R, <- app_assoc, (skipn_app_exact A) by reflexivity. reflexivity.
+Qed.
+
+Definition bits_at (s0 : src) (a : N) (F : bits) : Prop :=
+  forall s' i, same_buf s0 s' -> (i < length F)%nat -> r_bit_at s' (a + N.of_nat i) = Ok (nth i F false).
+
+Lemma bits_at_intro s0 A F B tail : rsrc s0 (A ++ F ++ B) tail -> bits_at s0 (s_pos s0 + bl A) F.
+Proof.
+  intros Hs s' i Hb Hi.
+  destruct (nth_split F false Hi) as (F1 & F2 & EF & L1).
+  assert (EQ : A ++ (F1 ++ nth i F false :: F2) ++ B = (A ++ F1) ++ nth i F false :: (F2 ++ B))
+    by (rewrite <- !app_assoc; reflexivity).
+  rewrite EF, EQ in Hs.
+  replace (s_pos s0 + bl A + N.of_nat i) with (s_pos s0 + bl (A ++ F1)) by (rewrite bl_app; unfold bl; lia).
+  eapply bit_at_spec; eauto.
+Qed.
+Lemma bits_at_cons s0 a f F : bits_at s0 a (f :: F) ->
+  (forall s', same_buf s0 s' -> r_bit_at s' a = Ok f) /\ bits_at s0 (a + 1) F.
+Proof.
+  intros H. split.
+  - intros s' Hb. specialize (H s' 0%nat Hb ltac:(cbn; lia)). rewrite N.add_0_r in H. exact H.
+  - intros s' i Hb Hi. specialize (H s' (S i) Hb ltac:(cbn [length]; lia)).
+    replace (a + 1 + N.of_nat i) with (a + N.of_nat (S i)) by lia. exact H.
+Qed.
+Lemma bits_at_app s0 a F1 F2 : bits_at s0 a (F1 ++ F2) -> bits_at s0 a F1 /\ bits_at s0 (a + bl F1) F2.
+Proof.
+  intros H. split.
+  - intros s' i Hb Hi. rewrite (H s' i Hb) by (rewrite app_length; lia). rewrite app_nth1 by exact Hi. reflexivity.
+  - intros s' i Hb Hi. specialize (H s' (length F1 + i)%nat Hb ltac:(rewrite app_length; lia)).
+    rewrite app_nth2_plus in H. replace (a + bl F1 + N.of_nat i) with (a + N.of_nat (length F1 + i)) by (unfold bl; lia).
+    exact H.
+Qed.
+
+Lemma bit_at_ok r p b : r_bit_at (r_src r) p = Ok b -> bit_at r p = Ok (inl b).
+Proof. unfold bit_at. intros ->. reflexivity. Qed.
+
+(** one component *)
+Definition fld_ok (m : mode) (opn : bool) (k : fkind) (ft : ty) (ov : option val) : Prop :=
+  match ov with
+  | Some x => wf_val ft x /\
+              (encoded k x -> ~ Known_C01 m ft x /\
+                 (opn = true -> wraps k ft = true -> ~ Known_C01_open_type_16k m ft x))
+  | None => k = FOpt
+  end.
+
+Definition mk_r (s : src) (sc : scope) : rst := {| r_src := s; r_scope := Some sc |}.
+
+Lemma stash_erase1 {A} (g : rst -> res (A * rst)) R sc : r_scope R = None ->
+  (let! (x, r2) := rscope_stashed R g in Ok (x, r_set_scope r2 sc)) =
+  (let! (x, r2) := g R in Ok (x, r_set_scope r2 sc)).
+Proof.
+  destruct R as [s0 sc0]. cbn [r_scope]. intros ->. unfold rscope_stashed. cbn [r_scope r_set_scope r_src].
+  destruct (g _) as [[a r']| |]; reflexivity.
+Qed.
+Lemma stash_erase2 {A} m (g : rst -> res (A * rst)) R len sc : r_scope R = None ->
+  (let! (x, r3) := read_whole_sub_slice m R len (fun r => rscope_stashed r g) in Ok (x, r_set_scope r3 sc)) =
+  (let! (x, r3) := read_whole_sub_slice m R len g in Ok (x, r_set_scope r3 sc)).
+Proof.
+  destruct R as [s0 sc0]. cbn [r_scope]. intros ->. unfold read_whole_sub_slice, rscope_stashed.
+  cbn [r_scope r_set_scope r_src].
+  destruct (umul m len BYTE_LEN) as [lb| |]; cbn [bind]; try reflexivity.
+  destruct (uadd m (s_pos s0) lb) as [wp| |]; cbn [bind]; try reflexivity.
+  destruct (g _) as [[y r']| |]; reflexivity.
+Qed.
+
+Lemma stashed_read m ft r1 :
+  rwith_buffer m r1 (fun r => rscope_stashed r (fun r => read_ty m ft r)) =
+  if ropen r1 then
+    let! (len, r2) := r_get r1 (r_length_determinant m None None) in
+    let! (y, r3) := read_whole_sub_slice m (r_set_scope r2 None) len (read_ty m ft) in
+    Ok (y, r_set_scope r3 (r_scope r1))
+  else let! (y, r2) := read_ty m ft (r_set_scope r1 None) in Ok (y, r_set_scope r2 (r_scope r1)).
+Proof.
+  rewrite (rwith_buffer_factor m _ _ (rscope_nat_stashed _)). destruct (ropen r1).
+  - destruct (r_get r1 _) as [[len r2]| |]; cbn [bind]; try reflexivity.
+    apply (stash_erase2 m (fun r => read_ty m ft r)). reflexivity.
+  - apply (stash_erase1 (fun r => read_ty m ft r)). reflexivity.
+Qed.
+
+(* the decoded option value of a component equals the written one *)
+Lemma rfield_spec m k ft ov p b s sc ob s1 sc1 opn :
+  Rprop m ft -> wf_ty ft -> enc_field m (k, ft) ov = Ok (p, b) -> fld_ok m opn k ft ov ->
+  (match k with FDef d => wf_val ft d | _ => True end) ->
+  read_from_field m (mk_r s sc) sc (is_optk k) = Ok (inl ob, mk_r s1 sc1) ->
+  (is_optk k = true -> ob = Some p) ->
+  opn = encode_as_open_type_field sc1 ->
+  forall bits tl,
+  (if p then (if opn && wraps k ft then wrap_open m b = Ok bits else bits = b) else bits = []) ->
+  rsrc s1 bits tl ->
+  rfield m (k, ft) (mk_r s sc) = Ok (ov, mk_r (src_adv s1 (bl bits) tl) sc1).
+Proof.
+  intros IH Hty Hef Hok Hd Hent Hob Hopn bits tl Hbits Hs.
+  assert (Hst : read_bit_field_entry_st m (mk_r s sc) (is_optk k) = Ok (inl ob, mk_r s1 sc1)) by exact Hent.
+  (* reading a present value after the entry *)
+  assert (Hcontent : forall x wr, enc m ft x = Ok b -> wf_val ft x -> ~ Known_C01 m ft x ->
+            (opn = true -> wr = true -> ~ Known_C01_open_type_16k m ft x) ->
+            (if opn && wr then wrap_open m b = Ok bits else bits = b) ->
+            (if ropen (mk_r s1 sc1) && wr then
+               let! (len, r2) := r_get (mk_r s1 sc1) (r_length_determinant m None None) in
+               let! (y, r3) := read_whole_sub_slice m (r_set_scope r2 None) len (read_ty m ft) in
+               Ok (y, r_set_scope r3 (r_scope (mk_r s1 sc1)))
+             else let! (y, r2) := read_ty m ft (r_set_scope (mk_r s1 sc1) None) in
+                  Ok (y, r_set_scope r2 (r_scope (mk_r s1 sc1))))
+            = Ok (x, mk_r (src_adv s1 (bl bits) tl) sc1)).
+  { intros x wr He Hv Hk Hbig Hb. unfold ropen. cbn [r_scope mk_r]. rewrite <- Hopn.
+    destruct (opn && wr) eqn:Eo.
+    - apply andb_true_iff in Eo. destruct Eo as [-> ->].
+      assert (Hsm : (bl b + 7) / 8 < 16384).
+      { destruct (N.lt_ge_cases ((bl b + 7) / 8) 16384) as [L|L]; [exact L|]. exfalso.
+        apply (Hbig eq_refl eq_refl). exists b. split; assumption. }
+      pose proof (open_read m b bits s1 tl (read_ty m ft) x Hb Hsm Hs
+                    (fun s' tl' Hs' => IH Hty x b He Hv Hk s' tl' Hs')) as Ho.
+      unfold r_get, mk_r, r_of_src in *. cbn [r_src] in *.
+      destruct (r_length_determinant m None None s1) as [[len s2]| |]; cbn [bind] in *; try discriminate Ho.
+      change (r_set_scope (r_set_src {| r_src := s1; r_scope := Some sc1 |} s2) None) with {| r_src := s2; r_scope := None |}.
+      change (r_set_src {| r_src := s1; r_scope := None |} s2) with {| r_src := s2; r_scope := None |} in Ho.
+      rewrite Ho. reflexivity.
+    - subst bits. change (r_set_scope (mk_r s1 sc1) None) with (r_of_src s1).
+      rewrite (IH Hty x b He Hv Hk s1 tl Hs). reflexivity. }
+  destruct k as [| |d]; cbn [is_optk] in *.
+  - (* mandatory *)
+    destruct ov as [x|]; cbn [enc_field] in Hef; [|discriminate Hef].
+    destruct (enc m ft x) as [b'| |] eqn:He; cbn [bind] in Hef; try discriminate Hef. injection Hef as <- <-.
+    cbn [fld_ok] in Hok. destruct Hok as [Hv Hk]. destruct (Hk I) as [Hk1 Hk2].
+    cbn [rfield]. rewrite (read_ty_factor m ft _ _ _ Hst).
+    rewrite (Hcontent x (negb (is_choice ft)) He Hv Hk1 Hk2 Hbits). reflexivity.
+  - (* OPTIONAL *)
+    specialize (Hob eq_refl). subst ob. cbn [rfield]. unfold read_bit_field_entry. rewrite Hst. cbn [bind].
+    destruct ov as [x|]; cbn [enc_field] in Hef.
+    + destruct (enc m ft x) as [b'| |] eqn:He; cbn [bind] in Hef; try discriminate Hef. injection Hef as <- <-.
+      cbn [fld_ok] in Hok. destruct Hok as [Hv Hk]. destruct (Hk I) as [Hk1 Hk2].
+      rewrite stashed_read.
+      pose proof (Hcontent x true He Hv Hk1 Hk2 Hbits) as Hc. rewrite andb_true_r in Hc.
+      rewrite Hc. reflexivity.
+    + injection Hef as <- <-. subst bits. rewrite bl_nil, (src_adv_nil _ _ (proj1 Hs)). reflexivity.
+  - (* DEFAULT *)
+    specialize (Hob eq_refl). subst ob. cbn [rfield]. unfold read_bit_field_entry. rewrite Hst. cbn [bind].
+    destruct ov as [x|]; cbn [enc_field] in Hef; [|discriminate Hef].
+    cbn [fld_ok] in Hok. destruct Hok as [Hv Hk]. cbn [encoded] in Hk.
+    destruct (val_eqb d x) eqn:Ed.
+    + injection Hef as <- <-. subst bits. apply val_eqb_eq in Ed. subst x.
+      rewrite bl_nil, (src_adv_nil _ _ (proj1 Hs)). reflexivity.
+    + destruct (enc m ft x) as [b'| |] eqn:He; cbn [bind] in Hef; try discriminate Hef. injection Hef as <- <-.
+      destruct (Hk eq_refl) as [Hk1 Hk2].
+      rewrite stashed_read.
+      pose proof (Hcontent x true He Hv Hk1 Hk2 Hbits) as Hc. rewrite andb_true_r in Hc.
+      rewrite Hc. reflexivity.
+Qed.
+
+
+
+Fixpoint flds_ok (m : mode) (opn : bool) (fs : list (fkind * ty)) (vals : list (option val)) : Prop :=
+  match fs, vals with
+  | [], [] => True
+  | (k, ft) :: fs', ov :: vals' =>
+      (Rprop m ft /\ wf_ty ft /\ match k with FDef d => wf_val ft d | _ => True end /\ fld_ok m opn k ft ov)
+      /\ flds_ok m opn fs' vals'
+  | _, _ => False
+  end.
+
+Lemma entry_root_r m s' x a b (o : bool) p :
+  (o = true -> r_bit_at s' a = Ok p /\ a < b) -> xge x 1 ->
+  exists ob, read_from_field m (mk_r s' (root_scope x a b)) (root_scope x a b) o
+     = Ok (inl ob, mk_r s' (root_scope (xsub x 1) (if o then a + 1 else a) b)) /\ (o = true -> ob = Some p).
+Proof.
+  intros Ho Hx. destruct x as [[[bp c] nx]|]; cbn [root_scope read_from_field read_from_field_simple xsub xge] in *.
+  - destruct (N.eqb_spec c 0); [lia|]. change (N.of_nat 1) with 1. destruct o.
+    + destruct (Ho eq_refl) as [Hb _]. unfold bit_at. cbn [r_src mk_r]. rewrite Hb. cbn [bind].
+      eexists. split; reflexivity.
+    + eexists. split; [reflexivity|discriminate].
+  - destruct o.
+    + destruct (Ho eq_refl) as [Hb Hlt]. destruct (N.leb_spec b a); [lia|].
+      unfold bit_at. cbn [r_src mk_r]. rewrite Hb. cbn [bind]. eexists. split; reflexivity.
+    + destruct (b <=? a); eexists; (split; [reflexivity|discriminate]).
+Qed.
+
+Lemma entry_all_r m s' a b (o : bool) p : a < b -> r_bit_at s' a = Ok p ->
+  read_from_field m (mk_r s' (AllBitField a b)) (AllBitField a b) o
+  = Ok (inl (Some p), mk_r s' (AllBitField (a + 1) b)).
+Proof.
+  intros Hlt Hb. cbn [read_from_field read_from_field_simple]. destruct (N.ltb_spec a b); [|lia].
+  unfold bit_at. cbn [r_src mk_r]. rewrite Hb. reflexivity.
+Qed.
+
+Lemma entry_tail_r m s' a b (o : bool) : b <= a ->
+  read_from_field m (mk_r s' (OptBitField a b)) (OptBitField a b) o
+  = Ok (inl (Some false), mk_r s' (OptBitField a b)).
+Proof. intros H. cbn [read_from_field read_from_field_simple]. destruct (N.leb_spec b a); [reflexivity|lia]. Qed.
+
+Lemma same_buf_sym a b : same_buf a b -> same_buf b a.
+Proof. unfold same_buf. intuition congruence. Qed.
+
+Lemma root_walk_r m s0 : forall rfs vals fes a b x s' tl acc,
+  flds_ok m false rfs vals -> enc_fields m rfs vals = Ok fes ->
+  bits_at s0 a (flags_of rfs fes) -> a + N.of_nat (nopt rfs) <= b -> xge x (length rfs) ->
+  same_buf s0 s' -> rsrc s' (payload_of fes) tl ->
+  rwalk m rfs (mk_r s' (root_scope x a b)) acc =
+  Ok (rev vals ++ acc,
+      mk_r (src_adv s' (bl (payload_of fes)) tl) (root_scope (xsub x (length rfs)) (a + N.of_nat (nopt rfs)) b)).
+Proof.
+  induction rfs as [|[k ft] rfs IHl]; intros vals fes a b x s' tl acc Hok He Hbits Hab Hx Hsb Hs.
+  - destruct vals; [|contradiction Hok]. cbn in He. injection He as <-.
+    cbn [rwalk rev app payload_of map concat length nopt filter]. rewrite bl_nil, (src_adv_nil _ _ (proj1 Hs)).
+    change (N.of_nat 0) with 0. rewrite N.add_0_r.
+    destruct x as [[[bp c] nx]|]; cbn [xsub]; rewrite ?N.sub_0_r; reflexivity.
+  - destruct vals as [|ov vals]; [contradiction Hok|]. cbn [flds_ok] in Hok. destruct Hok as [(HR & Hty & Hd & Hf) Hok].
+    rewrite enc_fields_cons in He.
+    destruct (enc_field m (k, ft) ov) as [[p b0]| |] eqn:Ef; cbn [bind] in He; try discriminate He.
+    destruct (enc_fields m rfs vals) as [fes'| |] eqn:Er; cbn [bind] in He; try discriminate He. injection He as <-.
+    cbn [flags_of] in Hbits. apply bits_at_app in Hbits. destruct Hbits as [Hb1 Hb2].
+    unfold nopt in Hab. cbn [filter fst] in Hab. cbn [length] in Hx.
+    assert (Hx1 : xge x 1) by (destruct x as [[[bp c] nx]|]; cbn [xge] in *; lia).
+    destruct (entry_root_r m s' x a b (is_optk k) p) as (ob & Hent & Hob); [|exact Hx1|].
+    { intros Ho. rewrite Ho in *. cbn [length] in Hab. split; [|lia].
+      apply bits_at_cons in Hb1. apply (proj1 Hb1). exact Hsb. }
+    cbn [payload_of map concat snd] in Hs. fold (payload_of fes') in Hs.
+    apply rsrc_split in Hs. destruct Hs as [Hs1 Hs2].
+    assert (Hb0 : p = false -> b0 = []) by (intros ->; eapply enc_field_absent; exact Ef).
+    cbn [rwalk].
+    rewrite (rfield_spec m k ft ov p b0 s' _ ob s' _ false HR Hty Ef Hf Hd Hent Hob
+               ltac:(destruct x as [[[? ?] ?]|]; reflexivity) b0 _
+               ltac:(destruct p; [reflexivity|auto]) Hs1).
+    cbn [bind].
+    rewrite (IHl vals fes' _ b (xsub x 1) _ tl (ov :: acc) Hok Er).
+    + cbn [rev length payload_of map concat snd]. fold (payload_of fes'). rewrite <- app_assoc. cbn [app].
+      rewrite src_adv_adv, bl_app, xsub_xsub. unfold nopt. cbn [filter fst].
+      destruct (is_optk k); cbn [length app bl]; do 4 f_equal; lia.
+    + destruct (is_optk k); cbn [app bl length] in Hb2; [|rewrite N.add_0_r in Hb2; exact Hb2].
+      change (bl [p]) with 1 in Hb2. exact Hb2.
+    + unfold nopt. destruct (is_optk k); cbn [length] in Hab; lia.
+    + destruct x as [[[bp c] nx]|]; cbn [xge xsub] in *; lia.
+    + eapply same_buf_trans; [exact Hsb|apply same_buf_adv].
+    + exact Hs2.
+Qed.
+
+Lemma all_walk_r m s0 : forall afs vals fes ap a b s' tl acc,
+  flds_ok m true afs vals -> enc_fields m afs vals = Ok fes -> add_payloads m afs fes = Ok ap ->
+  bits_at s0 a (map fst fes) -> a + N.of_nat (length afs) <= b ->
+  same_buf s0 s' -> rsrc s' ap tl ->
+  rwalk m afs (mk_r s' (AllBitField a b)) acc =
+  Ok (rev vals ++ acc, mk_r (src_adv s' (bl ap) tl) (AllBitField (a + N.of_nat (length afs)) b)).
+Proof.
+  induction afs as [|[k ft] afs IHl]; intros vals fes ap a b s' tl acc Hok He Hap Hbits Hab Hsb Hs.
+  - destruct vals; [|contradiction Hok]. cbn in He. injection He as <-. cbn in Hap. injection Hap as <-.
+    cbn [rwalk rev app length]. rewrite bl_nil, (src_adv_nil _ _ (proj1 Hs)).
+    change (N.of_nat 0) with 0. rewrite N.add_0_r. reflexivity.
+  - destruct vals as [|ov vals]; [contradiction Hok|]. cbn [flds_ok] in Hok. destruct Hok as [(HR & Hty & Hd & Hf) Hok].
+    rewrite enc_fields_cons in He.
+    destruct (enc_field m (k, ft) ov) as [[p b0]| |] eqn:Ef; cbn [bind] in He; try discriminate He.
+    destruct (enc_fields m afs vals) as [fes'| |] eqn:Er; cbn [bind] in He; try discriminate He. injection He as <-.
+    cbn [add_payloads] in Hap.
+    destruct (if p && wraps k ft then wrap_open m b0 else Ok b0) as [y| |] eqn:Ey; cbn [bind] in Hap; try discriminate Hap.
+    destruct (add_payloads m afs fes') as [ap'| |] eqn:Eap; cbn [bind] in Hap; try discriminate Hap. injection Hap as <-.
+    cbn [map fst] in Hbits. apply bits_at_cons in Hbits. destruct Hbits as [Hb1 Hb2].
+    cbn [length] in Hab.
+    apply rsrc_split in Hs. destruct Hs as [Hs1 Hs2].
+    assert (Hb0 : p = false -> b0 = []) by (intros ->; eapply enc_field_absent; exact Ef).
+    cbn [rwalk].
+    rewrite (rfield_spec m k ft ov p b0 s' _ (Some p) s' _ true HR Hty Ef Hf Hd
+               (entry_all_r m s' a b (is_optk k) p ltac:(lia) (Hb1 s' Hsb)) ltac:(reflexivity) eq_refl y _
+               ltac:(destruct p; cbn [andb] in *; [destruct (wraps k ft); [exact Ey|congruence]|rewrite (Hb0 eq_refl) in Ey; congruence]) Hs1).
+    cbn [bind].
+    rewrite (IHl vals fes' ap' _ b _ tl (ov :: acc) Hok Er Eap Hb2 ltac:(lia)
+               ltac:(eapply same_buf_trans; [exact Hsb|apply same_buf_adv]) Hs2).
+    cbn [rev length]. rewrite <- app_assoc. cbn [app]. rewrite src_adv_adv, bl_app.
+    replace (a + 1 + N.of_nat (length afs)) with (a + N.of_nat (S (length afs))) by lia. reflexivity.
+Qed.
+
+Lemma tail_walk_r m : forall afs vals fes a b s' tl acc,
+  flds_ok m false afs vals -> enc_fields m afs vals = Ok fes -> existsb fst fes = false -> b <= a ->
+  rsrc s' [] tl ->
+  rwalk m afs (mk_r s' (OptBitField a b)) acc = Ok (rev vals ++ acc, mk_r s' (OptBitField a b)).
+Proof.
+  induction afs as [|[k ft] afs IHl]; intros vals fes a b s' tl acc Hok He Hex Hab Hs.
+  - destruct vals; [|contradiction Hok]. reflexivity.
+  - destruct vals as [|ov vals]; [contradiction Hok|]. cbn [flds_ok] in Hok. destruct Hok as [(HR & Hty & Hd & Hf) Hok].
+    rewrite enc_fields_cons in He.
+    destruct (enc_field m (k, ft) ov) as [[p b0]| |] eqn:Ef; cbn [bind] in He; try discriminate He.
+    destruct (enc_fields m afs vals) as [fes'| |] eqn:Er; cbn [bind] in He; try discriminate He. injection He as <-.
+    cbn [existsb fst] in Hex. apply orb_false_iff in Hex. destruct Hex as [-> Hex].
+    cbn [rwalk].
+    rewrite (rfield_spec m k ft ov false b0 s' _ (Some false) s' _ false HR Hty Ef Hf Hd
+               (entry_tail_r m s' a b (is_optk k) Hab) ltac:(reflexivity) eq_refl [] tl eq_refl Hs).
+    cbn [bind]. rewrite bl_nil, (src_adv_nil _ _ (proj1 Hs)).
+    rewrite (IHl vals fes' a b s' tl (ov :: acc) Hok Er Hex Hab Hs).
+    cbn [rev]. rewrite <- app_assoc. reflexivity.
+Qed.
+
+Lemma rsrc_adv_nil s X tl : rsrc s X tl -> rsrc (src_adv s (bl X) tl) [] tl.
+Proof.
+  intros H. rewrite <- (app_nil_r X) in H. apply rsrc_split in H. destruct H as [_ H].
+  exact H.
+Qed.
+
+
+
+Lemma entry_trans_r m s' bp opt nx (o : bool) ns fl ap tl :
+  r_bit_at s' bp = Ok true -> 1 <= nx -> nx < SIZE_LIMIT ->
+  w_normally_small m (nx - 1) = Ok ns -> rsrc s' (ns ++ (true :: fl) ++ ap) tl -> bl fl + 1 = nx ->
+  read_from_field m (mk_r s' (ExtSeq bp opt 0 nx)) (ExtSeq bp opt 0 nx) o =
+  Ok (inl (Some true),
+      mk_r (src_adv s' (bl (ns ++ true :: fl)) (ap ++ tl))
+           (AllBitField (s_pos s' + bl ns + 1) (s_pos s' + bl ns + nx))).
+Proof.
+  intros Hbit H1 Hlim Hns Hs Hfl.
+  assert (Hv : nx - 1 < two64) by (unfold SIZE_LIMIT in Hlim; unfold two64; lia).
+  rewrite normally_small_write in Hns by exact Hv. injection Hns as <-.
+  cbn [read_from_field]. change (0 =? 0) with true. cbv iota.
+  unfold bit_at at 1. cbn [r_src mk_r]. rewrite Hbit. cbn [bind].
+  pose proof Hs as Hs0. apply rsrc_split in Hs. destruct Hs as [Hs1 Hs2].
+  rewrite (normally_small_read m (nx - 1) s' _ Hv (proj1 Hs1)).
+  rewrite uadd_ok by (unfold two64, SIZE_LIMIT in *; lia). cbn [bind r_src r_set_src mk_r].
+  replace (nx - 1 + 1) with nx by lia.
+  set (ns := x_normally_small (nx - 1)) in *.
+  match goal with |- context [src_set_pos ?S1 _] => set (s1 := S1) end.
+  change (s_pos s1) with (s_pos s' + bl ns).
+  assert (Hrs : rsrc s' (ns ++ true :: fl) (ap ++ tl)).
+  { destruct Hs0 as [(R & L & T) O]. split; [|exact O].
+    split; [rewrite R; rewrite <- !app_assoc; cbn [app]; rewrite <- ?app_assoc; reflexivity|].
+    rewrite !bl_app in *. rewrite !bl_cons in *. split; lia. }
+  assert (Hstop : N.min (s_pos s' + bl ns + nx) (two64 - 1) = s_pos s' + bl (ns ++ true :: fl)).
+  { destruct Hrs as [(_ & L & _) (_ & H64)]. rewrite bl_app, bl_cons in *. lia. }
+  rewrite Hstop.
+  rewrite (src_set_pos_end s' s1 (ns ++ true :: fl) (ap ++ tl) Hrs) by apply same_buf_adv.
+  cbn [read_from_field_simple].
+  destruct (N.ltb_spec (s_pos s' + bl ns) (s_pos s' + bl (ns ++ true :: fl))) as [L|L];
+    [|rewrite bl_app, bl_cons in L; lia].
+  unfold bit_at. cbn [r_src r_set_scope r_set_src].
+  rewrite (bit_at_spec s' ns true fl (ap ++ tl) _ Hrs (same_buf_adv _ _ _)). cbn [bind].
+  replace (s_pos s' + bl (ns ++ true :: fl)) with (s_pos s' + bl ns + nx) by (rewrite bl_app, bl_cons; lia).
+  reflexivity.
+Qed.
+
+(** from the recursive predicates of Spec.v to per-component facts *)
+Definition all_wf_vals :=
+  fix all (fs : list (fkind * ty)) (vals : list (option val)) : Prop :=
+    match fs, vals with
+    | [], [] => True
+    | (k, ft) :: fs', ov :: vals' =>
+        match ov with Some x => wf_val ft x | None => k = FOpt end /\ all fs' vals'
+    | _, _ => False
+    end.
+Definition any_known_f (m : mode) (ea : option N) :=
+  fix any (fs : list (fkind * ty)) (vals : list (option val)) (i : nat) : Prop :=
+    match fs, vals with
+    | (k, ft) :: fs', ov :: vals' =>
+        match ov with
+        | Some x => encoded k x /\
+                    (Known_C01 m ft x \/
+                     (is_addition ea i /\ wraps k ft = true /\ Known_C01_open_type_16k m ft x))
+        | None => False
+        end \/ any fs' vals' (S i)
+    | _, _ => False
+    end.
+
+Lemma all_wf_vals_length : forall fs vals, all_wf_vals fs vals -> length vals = length fs.
+Proof.
+  induction fs as [|[k ft] fs IH]; intros [|ov vals] H; try contradiction H; [reflexivity|].
+  cbn [all_wf_vals] in H. cbn [length]. f_equal. apply IH, H.
+Qed.
+
+Lemma flds_ok_intro m ea : forall fs vals i,
+  Forall (fun f => Rprop m (snd f)) fs -> all_wf_fields fs -> all_wf_vals fs vals ->
+  ~ any_known_f m ea fs vals i ->
+  flds_ok m false fs vals /\ (is_addition ea i -> flds_ok m true fs vals).
+Proof.
+  induction fs as [|[k ft] fs IH]; intros [|ov vals] i F Hty Hv Hk; try contradiction Hv.
+  - split; [exact I|intros _; exact I].
+  - apply Forall_cons_iff in F. destruct F as [HR F]. cbn [snd] in HR.
+    cbn [all_wf_fields] in Hty. destruct Hty as (Ht & Hd & Hty).
+    cbn [all_wf_vals] in Hv. destruct Hv as [Hv1 Hv].
+    cbn [any_known_f] in Hk.
+    destruct (IH vals (S i) F Hty Hv ltac:(tauto)) as [I1 I2].
+    assert (Hadd : is_addition ea i -> is_addition ea (S i)) by (destruct ea; cbn [is_addition]; [lia|tauto]).
+    cbn [flds_ok]. split.
+    + split; [|exact I1]. repeat split; try assumption.
+      unfold fld_ok. destruct ov as [x|]; [|exact Hv1]. split; [exact Hv1|].
+      intros He. split; [tauto|intros C; discriminate C].
+    + intros Ha. split; [|apply I2, Hadd, Ha]. repeat split; try assumption.
+      unfold fld_ok. destruct ov as [x|]; [|exact Hv1]. split; [exact Hv1|].
+      intros He. split; [tauto|]. intros _ Hw C. apply Hk. left. tauto.
+Qed.
+
+Lemma flds_ok_app m o : forall a b vals, flds_ok m o (a ++ b) vals ->
+  flds_ok m o a (firstn (length a) vals) /\ flds_ok m o b (skipn (length a) vals).
+Proof.
+  induction a as [|[k ft] a IH]; intros b vals H; cbn [app length firstn skipn] in *.
+  - split; [exact I|exact H].
+  - destruct vals as [|ov vals]; [contradiction H|]. cbn [flds_ok] in H. destruct H as [H1 H2].
+    destruct (IH b vals H2) as [I1 I2]. cbn [firstn skipn flds_ok]. tauto.
+Qed.
+
+Lemma any_known_skip m ea : forall n fs vals i,
+  ~ any_known_f m ea fs vals i -> ~ any_known_f m ea (skipn n fs) (skipn n vals) (i + n).
+Proof.
+  induction n as [|n IH]; intros fs vals i H.
+  - rewrite Nat.add_0_r. exact H.
+  - destruct fs as [|[k ft] fs]; [cbn; tauto|]. destruct vals as [|ov vals].
+    + cbn [skipn]. destruct (skipn n fs) as [|[? ?] ?]; cbn; tauto.
+    + cbn [skipn]. replace (i + S n)%nat with (S i + n)%nat by lia. apply IH.
+      cbn [any_known_f] in H. tauto.
+Qed.
+Lemma all_wf_fields_skipn n : forall fs, all_wf_fields fs -> all_wf_fields (skipn n fs).
+Proof.
+  induction n as [|n IH]; intros fs H; [exact H|]. destruct fs as [|[k ft] fs]; [exact H|].
+  cbn [skipn]. apply IH. cbn [all_wf_fields] in H. tauto.
+Qed.
+Lemma all_wf_vals_skipn n : forall fs vals, all_wf_vals fs vals -> all_wf_vals (skipn n fs) (skipn n vals).
+Proof.
+  induction n as [|n IH]; intros fs vals H; [exact H|]. destruct fs as [|[k ft] fs]; destruct vals as [|ov vals];
+    try contradiction H; [exact I|].
+  cbn [skipn]. apply IH. cbn [all_wf_vals] in H. tauto.
+Qed.
+
+
+
+Lemma frev_rev {A} (l : list A) : frev (rev l ++ []) = l.
+Proof. unfold frev. rewrite rev_append_rev, !app_nil_r, rev_involutive. reflexivity. Qed.
+
+(* the preamble: remaining-length check, then the cursor jumps over the presence bits *)
+Lemma seq_header m s1 flags rest tail so :
+  rsrc s1 (flags ++ rest) tail -> so = bl flags ->
+  src_remaining m s1 = Ok (s_len s1 - s_pos s1) /\ (s_len s1 - s_pos s1 <? so) = false /\
+  uadd m (s_pos s1) so = Ok (s_pos s1 + so) /\
+  src_set_pos s1 (s_pos s1 + so) = src_adv s1 (bl flags) (rest ++ tail).
+Proof.
+  intros Hs ->. pose proof Hs as [(R & L & T) (E & H64)]. rewrite bl_app in L.
+  unfold src_remaining. rewrite usub_ok by lia. split; [reflexivity|].
+  split; [apply N.ltb_ge; lia|]. rewrite uadd_ok by lia. split; [reflexivity|].
+  apply rsrc_split in Hs. destruct Hs as [Hs1 _].
+  apply (src_set_pos_end s1 s1 flags (rest ++ tail) Hs1 (same_buf_refl _)).
+Qed.
+
+Lemma seq_assemble_some m fs fes e kr : kr = S (N.to_nat e) ->
+  seq_assemble m fs fes (Some e) =
+  let! (eb, xp) := ext_part m (skipn kr fs) (skipn kr fes) in
+  Ok (eb :: flags_of (firstn kr fs) (firstn kr fes) ++ payload_of (firstn kr fes) ++ xp).
+Proof. intros ->. reflexivity. Qed.
+
+Lemma enc_fields_firstn m : forall l vals fes, enc_fields m l vals = Ok fes ->
+  enc_fields m l (firstn (length l) vals) = Ok fes.
+Proof.
+  induction l as [|[k ft] l IH]; intros vals fes H; [cbn in *; exact H|].
+  destruct vals as [|ov vals]; [rewrite enc_fields_nil_vals in H; discriminate H|].
+  cbn [length firstn]. rewrite enc_fields_cons in *.
+  destruct (enc_field m (k, ft) ov); cbn [bind] in *; try discriminate H.
+  destruct (enc_fields m l vals) as [r| |] eqn:E2; cbn [bind] in *; try discriminate H.
+  rewrite (IH vals r E2). exact H.
+Qed.
+
+Lemma rpushed_eq {A} m s sc (f : rst -> res (A * rst)) :
+  rscope_pushed m (r_of_src s) sc f =
+  let! (a, r') := f (mk_r s sc) in
+  if debug_asserts m && negb (match r_scope r' with Some s => scope_exhausted s | None => false end)
+  then Panic P_ASSERT else Ok (a, r_set_scope r' None).
+Proof. reflexivity. Qed.
+
+Lemma R_seq m fs so fc ea : Forall (fun f => Rprop m (snd f)) fs -> Rprop m (TSeq fs so fc ea).
+Proof.
+  intros F Hty v bs He Hv Hk s tail Hs. destruct v as [| | | | | | |vals| |]; try discriminate He; try contradiction Hv.
+  apply wf_ty_seq in Hty. destruct Hty as [(Hfc & Hlim & Hea & Hso) Htf].
+  rewrite enc_seq_eq in He. destruct (enc_fields m fs vals) as [fes| |] eqn:Ef; cbn [bind] in He; try discriminate He.
+  change (all_wf_vals fs vals) in Hv. change (~ any_known_f m ea fs vals 0) in Hk.
+  pose proof (all_wf_vals_length _ _ Hv) as Hlv.
+  pose proof (enc_fields_length _ _ _ _ Ef) as Hlf.
+  destruct (flds_ok_intro m ea fs vals 0 F Htf Hv Hk) as [Hok0 _].
+  rewrite read_ty_seq_eq, rentry_none by reflexivity. cbn [bind]. rewrite rwith_buffer_none by reflexivity. cbv zeta.
+  destruct ea as [e|]; cbn [root_len] in Hso.
+  - (* extensible *)
+    remember (S (N.to_nat e)) as kr eqn:Ekr.
+    rewrite (seq_assemble_some m fs fes e kr Ekr) in He.
+    assert (Hkr : (kr <= length fs)%nat) by lia.
+    destruct (ext_part m (skipn kr fs) (skipn kr fes)) as [[eb xp]| |] eqn:Ex; cbn [bind] in He; try discriminate He.
+    injection He as <-.
+    (* split the component lists *)
+    pose proof Ef as Ef'. rewrite <- (firstn_skipn kr fs) in Ef'. rewrite enc_fields_app in Ef'.
+    rewrite firstn_skipn_len in Ef' by exact Hkr.
+    destruct (enc_fields m (firstn kr fs) vals) as [rfe| |] eqn:Er; cbn [bind] in Ef'; try discriminate Ef'.
+    destruct (enc_fields m (skipn kr fs) (skipn kr vals)) as [afe| |] eqn:Ea; cbn [bind] in Ef'; try discriminate Ef'.
+    injection Ef' as <-.
+    pose proof (enc_fields_length _ _ _ _ Er) as Hlr. rewrite firstn_skipn_len in Hlr by exact Hkr.
+    rewrite skipn_app, Hlr, Nat.sub_diag, (@skipn_all2 _ kr rfe) in Ex by lia.
+    rewrite firstn_app, Hlr, Nat.sub_diag, (@firstn_all2 _ kr rfe) in Hs |- * by lia.
+    cbn [firstn skipn app] in Ex, Hs |- *. rewrite app_nil_r in Hs |- *.
+    pose proof Hok0 as Hok. rewrite <- (firstn_skipn kr fs) in Hok. apply flds_ok_app in Hok.
+    rewrite firstn_skipn_len in Hok by exact Hkr. destruct Hok as [Hokr Hoka].
+    assert (Er' : enc_fields m (firstn kr fs) (firstn kr vals) = Ok rfe).
+    { pose proof (enc_fields_firstn m _ _ _ Er) as Q. rewrite firstn_skipn_len in Q by exact Hkr. exact Q. }
+    assert (Hflags : bl (flags_of (firstn kr fs) rfe) = so).
+    { unfold bl. rewrite flags_of_length by (rewrite firstn_skipn_len by exact Hkr; exact Hlr). lia. }
+    cbn [app] in Hs. pose proof Hs as Hs0.
+    change (eb :: flags_of (firstn kr fs) rfe ++ payload_of rfe ++ xp)
+      with ([eb] ++ flags_of (firstn kr fs) rfe ++ payload_of rfe ++ xp) in Hs.
+    apply rsrc_split in Hs. destruct Hs as [Hs1 Hs2].
+    rewrite r_get_of_src, (r_bit_ok _ _ _ (proj1 Hs1)). cbn [bind r_src r_of_src r_set_src r_scope].
+    change (bl [eb]) with 1 in *.
+    set (s1 := src_adv s 1 ((flags_of (firstn kr fs) rfe ++ payload_of rfe ++ xp) ++ tail)) in *.
+    destruct (seq_header m s1 (flags_of (firstn kr fs) rfe) (payload_of rfe ++ xp) tail so Hs2 (eq_sym Hflags)) as (Q1 & Q2 & Q3 & Q4).
+    rewrite Q1. cbn [bind]. rewrite Q2, Q3. cbn [bind]. rewrite Q4. clear Q1 Q2 Q3 Q4.
+    apply rsrc_split in Hs2. destruct Hs2 as [Hs2 Hs3]. fold s1 in Hs3.
+    set (s2 := src_adv s1 (bl (flags_of (firstn kr fs) rfe)) ((payload_of rfe ++ xp) ++ tail)) in *.
+    assert (Hbits : bits_at s (s_pos s1) (flags_of (firstn kr fs) rfe)).
+    { change (s_pos s1) with (s_pos s + bl [eb]).
+      apply (bits_at_intro s [eb] _ (payload_of rfe ++ xp) tail). exact Hs0. }
+    assert (Hsb2 : same_buf s s2) by (eapply same_buf_trans; apply same_buf_adv).
+    assert (Hnopt : N.of_nat (nopt (firstn kr fs)) = so) by lia.
+    apply rsrc_split in Hs3. destruct Hs3 as [Hs3 Hs4].
+    change (r_of_src s2) with (r_of_src s2).
+    destruct eb.
+    + (* additions present *)
+      assert (Hfc' : e + 1 = N.of_nat kr) by lia.
+      (* shape of the extension part *)
+      unfold ext_part in Ex. destruct afe as [|[p1 b1] rest]; [discriminate Ex|].
+      destruct p1; [|destruct (existsb fst rest); discriminate Ex].
+      match type of Ex with context [w_normally_small m ?a] =>
+        destruct (w_normally_small m a) as [ns| |] eqn:Ens; cbn [bind] in Ex; try discriminate Ex end.
+      match type of Ex with context [add_payloads m ?a ?b] =>
+        destruct (add_payloads m a b) as [ap| |] eqn:Eap; cbn [bind] in Ex; try discriminate Ex end.
+      injection Ex as <-.
+      pose proof (enc_fields_length _ _ _ _ Ea) as Hla.
+      destruct (skipn kr fs) as [|[k1 ft1] afs] eqn:Eafs; [discriminate Hla|].
+      destruct (skipn kr vals) as [|ov1 avals] eqn:Eav; [rewrite enc_fields_nil_vals in Ea; discriminate Ea|].
+      assert (Hlen_fs : length fs = (kr + S (length afs))%nat).
+      { rewrite <- (firstn_skipn kr fs) at 1. rewrite app_length, firstn_skipn_len, Eafs by exact Hkr. reflexivity. }
+      cbn [length] in Hla, Ens.
+      set (nx := fc - (e + 1)) in *.
+      assert (Hnx : nx = N.of_nat (S (length rest))) by (unfold nx; lia).
+      assert (Hnxl : nx < SIZE_LIMIT) by (unfold nx; lia).
+      assert (Hnxu : usub m fc (e + 1) = Ok nx) by (apply usub_ok; lia).
+      clearbody nx.
+      replace (N.of_nat (S (length rest)) - 1) with (nx - 1) in Ens by lia.
+      (* per-component facts for the additions, as open types *)
+      assert (Hoka1 : flds_ok m true ((k1, ft1) :: afs) (ov1 :: avals)).
+      { rewrite <- Eafs, <- Eav.
+        apply (flds_ok_intro m (Some e) (skipn kr fs) (skipn kr vals) (0 + kr)).
+        - apply Forall_skipn. exact F.
+        - apply all_wf_fields_skipn. exact Htf.
+        - apply all_wf_vals_skipn. exact Hv.
+        - apply any_known_skip. exact Hk.
+        - cbn [is_addition]. lia. }
+      cbn [flds_ok] in Hoka1. destruct Hoka1 as [(HR1 & Hty1 & Hd1 & Hf1) Hoka'].
+      rewrite enc_fields_cons in Ea.
+      destruct (enc_field m (k1, ft1) ov1) as [[p1 b1']| |] eqn:Ef1; cbn [bind] in Ea; try discriminate Ea.
+      destruct (enc_fields m afs avals) as [afe'| |] eqn:Ea'; cbn [bind] in Ea; try discriminate Ea.
+      injection Ea as -> -> ->.
+      cbn [add_payloads andb] in Eap.
+      destruct (if wraps k1 ft1 then wrap_open m b1 else Ok b1) as [y1| |] eqn:Ey1; cbn [bind] in Eap; try discriminate Eap.
+      destruct (add_payloads m afs rest) as [ap'| |] eqn:Eap'; cbn [bind] in Eap; try discriminate Eap.
+      injection Eap as <-.
+      (* root components under the ExtSeq scope *)
+      rewrite Hnxu. cbn [bind].
+      rewrite rpushed_eq, rfields_rwalk.
+      rewrite <- (firstn_skipn kr fs) at 1. rewrite rwalk_app, Eafs.
+      change (ExtSeq (s_pos s) (Some (s_pos s1, s_pos s1 + so)) (e + 1) nx)
+        with (root_scope (Some (s_pos s, e + 1, nx)) (s_pos s1) (s_pos s1 + so)).
+      assert (Hab : s_pos s1 + N.of_nat (nopt (firstn kr fs)) <= s_pos s1 + so) by lia.
+      assert (Hxg : xge (Some (s_pos s, e + 1, nx)) (length (firstn kr fs))).
+      { cbn [xge]. rewrite firstn_skipn_len by exact Hkr. lia. }
+      rewrite (root_walk_r m s (firstn kr fs) (firstn kr vals) rfe (s_pos s1) (s_pos s1 + so) _ s2 _ [] Hokr Er' Hbits
+                 Hab Hxg Hsb2 Hs3).
+      cbn [bind xsub root_scope]. rewrite Hnopt, firstn_skipn_len by exact Hkr.
+      replace (e + 1 - N.of_nat kr) with 0 by lia.
+      cbn [map fst] in Hs4 |- *.
+      set (s3 := src_adv s2 (bl (payload_of rfe)) ((ns ++ true :: map fst rest ++ y1 ++ ap') ++ tail)) in *.
+      assert (Hsb3 : same_buf s s3) by (eapply same_buf_trans; [exact Hsb2|apply same_buf_adv]).
+      (* first addition: the scope turns into the presence bits of the additions *)
+      assert (Hbit0 : r_bit_at s3 (s_pos s) = Ok true).
+      { pose proof (bit_at_spec s [] true _ tail s3 Hs0 Hsb3) as Q. rewrite bl_nil, N.add_0_r in Q. exact Q. }
+      assert (Hfl : bl (map fst rest) + 1 = nx).
+      { unfold bl. rewrite map_length. unfold fenc in *. lia. }
+      pose proof (entry_trans_r m s3 (s_pos s) (Some (s_pos s1 + so, s_pos s1 + so)) nx (is_optk k1) ns
+                    (map fst rest) (y1 ++ ap') tail Hbit0 ltac:(lia) Hnxl Ens Hs4 Hfl) as Hent.
+      set (s4 := src_adv s3 (bl (ns ++ true :: map fst rest)) ((y1 ++ ap') ++ tail)) in *.
+      assert (Hs5 : rsrc s4 (y1 ++ ap') tail).
+      { assert (EQ : ns ++ true :: map fst rest ++ y1 ++ ap' = (ns ++ true :: map fst rest) ++ (y1 ++ ap'))
+          by (rewrite <- app_assoc; reflexivity).
+        assert (Q2 : rsrc s3 ((ns ++ true :: map fst rest) ++ (y1 ++ ap')) tail) by (rewrite <- EQ; exact Hs4).
+        apply rsrc_split in Q2. exact (proj2 Q2). }
+      apply rsrc_split in Hs5. destruct Hs5 as [Hs5 Hs6].
+      cbn [rwalk].
+      rewrite (rfield_spec m k1 ft1 ov1 true b1 s3 _ (Some true) s4 _ true HR1 Hty1 Ef1 Hf1 Hd1 Hent
+                 ltac:(reflexivity) eq_refl y1 _ ltac:(cbn [andb]; destruct (wraps k1 ft1); congruence) Hs5).
+      cbn [bind].
+      (* the other additions *)
+      set (a1 := s_pos s3 + bl ns + 1) in *.
+      assert (Hbits2 : bits_at s a1 (map fst rest)).
+      { pose proof (bits_at_intro s ([true] ++ flags_of (firstn kr fs) rfe ++ payload_of rfe ++ ns ++ [true])
+                      (map fst rest) (y1 ++ ap') tail) as Q.
+        replace (s_pos s + bl ([true] ++ flags_of (firstn kr fs) rfe ++ payload_of rfe ++ ns ++ [true])) with a1 in Q.
+        - apply Q. replace (([true] ++ flags_of (firstn kr fs) rfe ++ payload_of rfe ++ ns ++ [true]) ++ map fst rest ++ y1 ++ ap')
+            with (true :: flags_of (firstn kr fs) rfe ++ payload_of rfe ++ ns ++ true :: map fst rest ++ y1 ++ ap'); [exact Hs0|].
+          cbn [app]. rewrite <- !app_assoc. cbn [app]. reflexivity.
+        - unfold a1, s3, s2, s1. cbn [s_pos src_adv]. rewrite !bl_app. change (bl [true]) with 1. lia. }
+      assert (Hab2 : a1 + N.of_nat (length afs) <= s_pos s3 + bl ns + nx).
+      { unfold a1. pose proof (enc_fields_length _ _ _ _ Ea'). lia. }
+      rewrite (all_walk_r m s afs avals rest ap' a1 (s_pos s3 + bl ns + nx) _ tail _ Hoka' Ea' Eap' Hbits2 Hab2
+                 ltac:(eapply same_buf_trans; [exact Hsb3|eapply same_buf_trans; apply same_buf_adv]) Hs6).
+      cbn [bind].
+      replace (a1 + N.of_nat (length afs)) with (s_pos s3 + bl ns + nx)
+        by (unfold a1; pose proof (enc_fields_length _ _ _ _ Ea'); lia).
+      unfold skip_unknown_extension_additions. cbn [r_scope mk_r skip_unknown_loop]. rewrite N.leb_refl.
+      cbn [bind r_scope r_set_scope scope_exhausted]. rewrite N.eqb_refl. cbn [negb]. rewrite andb_false_r.
+      rewrite (app_nil_r (rev (firstn kr vals))).
+      replace (rev avals ++ ov1 :: rev (firstn kr vals)) with (rev (firstn kr vals ++ ov1 :: avals))
+        by (rewrite rev_app_distr; cbn [rev]; rewrite <- app_assoc; reflexivity).
+      rewrite <- Eav, firstn_skipn. unfold frev. rewrite rev_append_rev, app_nil_r, rev_involutive.
+      unfold r_set_scope, mk_r, r_of_src. cbn [r_src]. do 3 f_equal.
+      unfold s3, s2, s1. rewrite !src_adv_adv. f_equal.
+      rewrite !bl_cons, !bl_app, !bl_cons, !bl_app. lia.
+    + (* no addition present *)
+      rewrite rpushed_eq, rfields_rwalk.
+      rewrite <- (firstn_skipn kr fs) at 1. rewrite rwalk_app.
+      change (OptBitField (s_pos s1) (s_pos s1 + so)) with (root_scope None (s_pos s1) (s_pos s1 + so)).
+      assert (Hab : s_pos s1 + N.of_nat (nopt (firstn kr fs)) <= s_pos s1 + so) by lia.
+      rewrite (root_walk_r m s (firstn kr fs) (firstn kr vals) rfe (s_pos s1) (s_pos s1 + so) None s2 _ [] Hokr Er' Hbits
+                 Hab I Hsb2 Hs3).
+      cbn [bind xsub root_scope]. rewrite Hnopt.
+      assert (Hxp : xp = [] /\ existsb fst afe = false).
+      { unfold ext_part in Ex. destruct afe as [|[p1 b1] rest]; [injection Ex as <-; split; reflexivity|].
+        destruct p1.
+        - destruct (w_normally_small m _); cbn [bind] in Ex; try discriminate Ex.
+          destruct (add_payloads m _ _); cbn [bind] in Ex; discriminate Ex.
+        - destruct (existsb fst rest) eqn:Ee; [discriminate Ex|]. injection Ex as <-. split; [reflexivity|exact Ee]. }
+      destruct Hxp as [-> Hex].
+      rewrite (tail_walk_r m (skipn kr fs) (skipn kr vals) afe (s_pos s1 + so) (s_pos s1 + so) _ tail _ Hoka Ea Hex (N.le_refl _) (rsrc_adv_nil _ _ _ Hs3)).
+      cbn [bind r_scope mk_r scope_exhausted]. rewrite N.eqb_refl. cbn [negb]. rewrite andb_false_r.
+      rewrite (app_nil_r (rev (firstn kr vals))), <- rev_app_distr, firstn_skipn.
+      unfold frev. rewrite rev_append_rev, app_nil_r, rev_involutive.
+      unfold r_set_scope, mk_r, r_of_src. cbn [r_src]. do 3 f_equal.
+      unfold s2, s1. rewrite !src_adv_adv. rewrite !app_nil_r. f_equal.
+      rewrite bl_cons, bl_app. lia.
+  - (* not extensible *)
+    cbn [seq_assemble] in He. injection He as <-. rewrite firstn_all in Hso. cbn [bind r_src r_of_src].
+    assert (Hflags : bl (flags_of fs fes) = so) by (unfold bl; rewrite flags_of_length by exact Hlf; lia).
+    destruct (seq_header m s (flags_of fs fes) (payload_of fes) tail so Hs (eq_sym Hflags)) as (Q1 & Q2 & Q3 & Q4).
+    rewrite Q1. cbn [bind]. rewrite Q2, Q3. cbn [bind]. unfold r_set_src. cbn [r_src r_scope r_of_src]. rewrite Q4. clear Q1 Q2 Q3 Q4.
+    pose proof Hs as Hs0. apply rsrc_split in Hs. destruct Hs as [Hs1 Hs2].
+    set (s2 := src_adv s (bl (flags_of fs fes)) (payload_of fes ++ tail)) in *.
+    assert (Hbits : bits_at s (s_pos s) (flags_of fs fes)).
+    { pose proof (bits_at_intro s [] (flags_of fs fes) (payload_of fes) tail Hs0) as Q.
+      rewrite bl_nil, N.add_0_r in Q. exact Q. }
+    change {| r_src := s2; r_scope := None |} with (r_of_src s2).
+    rewrite rpushed_eq, rfields_rwalk.
+    change (OptBitField (s_pos s) (s_pos s + so)) with (root_scope None (s_pos s) (s_pos s + so)).
+    assert (Hab : s_pos s + N.of_nat (nopt fs) <= s_pos s + so) by lia.
+    rewrite (root_walk_r m s fs vals fes (s_pos s) (s_pos s + so) None s2 tail [] Hok0 Ef Hbits Hab I
+               (same_buf_adv _ _ _) Hs2).
+    cbn [bind xsub root_scope r_scope mk_r scope_exhausted].
+    replace (s_pos s + N.of_nat (nopt fs)) with (s_pos s + so) by lia.
+    rewrite N.eqb_refl. cbn [negb]. rewrite andb_false_r, frev_rev.
+    unfold r_set_scope, mk_r, r_of_src. cbn [r_src]. do 3 f_equal.
+    unfold s2. rewrite src_adv_adv, bl_app. reflexivity.
+Qed.
+
+
+
+(** * the reader inverts the reference encoder, for every type *)
+Theorem read_enc m t : Rprop m t.
+Proof.
+  induction t as [| |k lo hi ext|c lo hi ext|lo hi ext|lo hi ext|e lo hi ext IH|fs so fc ea IH|alts std ext IH|vc std ext]
+    using ty_ind'.
+  1-6,10: match goal with |- Rprop _ ?t => exact (R_flat m t) end.
+  - apply R_list, IH.
+  - apply R_seq, IH.
+  - apply R_choice, IH.
+Qed.
+
+(** * C01 *)
+Theorem C01_roundtrip_full m t v w w' :
+  wf_ty t -> wf_val t v -> ~ Known_C01 m t v -> wst_wf w -> w_scope w = None ->
+  write_ty m t v w = Ok w' ->
+  exists bs, enc m t v = Ok bs /\ w' = w_append w bs /\
+    w_bits w' = w_bits w ++ bs /\ w_scope w' = None /\ wst_wf w' /\
+    forall s tail, rsrc s bs tail ->
+      read_ty m t (r_of_src s) = Ok (v, r_of_src (src_adv s (bl bs) tail)).
+Proof.
+  intros Hty Hv Hk Hw Hs H. pose proof (write_enc m t Hty v w Hw Hs) as S. unfold wsim in S.
+  destruct (enc m t v) as [bs| |] eqn:E; try (rewrite H in S; discriminate S).
+  rewrite S in H. injection H as <-. exists bs. split; [reflexivity|]. split; [reflexivity|].
+  split; [apply w_bits_append|]. split; [exact Hs|]. split; [apply w_append_wf; exact Hw|].
+  intros s tail Hsrc. apply (read_enc m t Hty v bs E Hv Hk s tail Hsrc).
+Qed.
+
+(* several values back to back *)
+Fixpoint write_all (m : mode) (l : list (ty * val)) (w : wst) : res wst :=
+  match l with
+  | [] => Ok w
+  | (t, v) :: r => let! w := write_ty m t v w in write_all m r w
+  end.
+Fixpoint read_all (m : mode) (ts : list ty) (r : rst) : res (list val * rst) :=
+  match ts with
+  | [] => Ok ([], r)
+  | t :: ts' => let! (v, r) := read_ty m t r in let! (vs, r) := read_all m ts' r in Ok (v :: vs, r)
+  end.
+Definition item_ok (m : mode) (p : ty * val) : Prop :=
+  wf_ty (fst p) /\ wf_val (fst p) (snd p) /\ ~ Known_C01 m (fst p) (snd p).
+
+Lemma sequence_gen m : forall l w w', Forall (item_ok m) l -> wst_wf w -> w_scope w = None ->
+  write_all m l w = Ok w' ->
+  exists bs, w' = w_append w bs /\
+    forall s tail, rsrc s bs tail ->
+      read_all m (map fst l) (r_of_src s) = Ok (map snd l, r_of_src (src_adv s (bl bs) tail)).
+Proof.
+  induction l as [|[t v] l IH]; intros w w' F Hw Hs H.
+  - cbn in H. injection H as <-. exists []. split; [symmetry; apply w_append_nil|].
+    intros s tail Hsrc. cbn [map read_all]. rewrite bl_nil, (src_adv_nil _ _ (proj1 Hsrc)). reflexivity.
+  - apply Forall_cons_iff in F. destruct F as [(Hty & Hv & Hk) F]. cbn [fst snd] in *.
+    cbn [write_all] in H. destruct (write_ty m t v w) as [w1| |] eqn:E1; cbn [bind] in H; try discriminate H.
+    destruct (C01_roundtrip_full m t v w w1 Hty Hv Hk Hw Hs E1) as (b1 & _ & -> & _ & Hs1 & Hw1 & Hr1).
+    destruct (IH _ w' F Hw1 Hs1 H) as (b2 & -> & Hr2).
+    exists (b1 ++ b2). split; [apply w_append_app|].
+    intros s tail Hsrc. apply rsrc_split in Hsrc. destruct Hsrc as [H1 H2].
+    cbn [map read_all fst snd]. rewrite (Hr1 _ _ H1). cbn [bind]. rewrite (Hr2 _ _ H2). cbn [bind].
+    rewrite src_adv_adv, bl_app. reflexivity.
+Qed.
+
+Theorem C01_sequence_full m l w' :
+  Forall (item_ok m) l -> write_all m l w_empty = Ok w' -> bl (w_bits w') < two64 ->
+  exists r, read_all m (map fst l) (r_of_src (src_of_bits (w_bits w') (bl (w_bits w')))) = Ok (map snd l, r)
+            /\ src_remaining m (r_src r) = Ok 0.
+Proof.
+  intros F H Hlen. destruct (sequence_gen m l w_empty w' F w_empty_wf eq_refl H) as (bs & -> & Hr).
+  rewrite w_bits_empty_append in *.
+  assert (Hsrc : rsrc (src_of_bits bs (bl bs)) bs []).
+  { unfold rsrc, at_src, src_ok, src_of_bits. cbn [s_rest s_pos s_len s_total s_all].
+    rewrite app_nil_r. unfold bl. cbn [skipn N.to_nat]. repeat split; try lia. exact Hlen. }
+  eexists. split; [apply (Hr _ _ Hsrc)|].
+  unfold src_remaining, src_adv, src_of_bits. cbn [r_src r_of_src s_len s_pos]. rewrite usub_ok by lia.
+  f_equal. lia.
+Qed.
+
+(** * C03: the preamble of SEQUENCE / SET *)
+Definition presence (k : fkind) (ov : option val) : bool :=
+  match k, ov with
+  | FReq, _ => true
+  | FOpt, o => is_some o
+  | FDef d, Some x => negb (val_eqb d x)
+  | FDef _, None => false
+  end.
+Fixpoint presences (fs : list (fkind * ty)) (vals : list (option val)) : list bool :=
+  match fs, vals with
+  | (k, _) :: fs', ov :: vals' => presence k ov :: presences fs' vals'
+  | _, _ => []
+  end.
+
+Lemma enc_fields_presence m : forall fs vals fes, enc_fields m fs vals = Ok fes ->
+  map fst fes = presences fs vals /\
+  Forall (fun fe => fst fe = false -> snd fe = []) fes.
+Proof.
+  induction fs as [|[k ft] fs IH]; intros vals fes H.
+  - cbn in H. injection H as <-. split; [reflexivity|constructor].
+  - destruct vals as [|ov vals]; [rewrite enc_fields_nil_vals in H; discriminate H|].
+    rewrite enc_fields_cons in H.
+    destruct (enc_field m (k, ft) ov) as [[p b]| |] eqn:Ef; cbn [bind] in H; try discriminate H.
+    destruct (enc_fields m fs vals) as [fes'| |] eqn:Er; cbn [bind] in H; try discriminate H. injection H as <-.
+    destruct (IH vals fes' Er) as [I1 I2]. cbn [map fst presences]. split.
+    + f_equal; [|exact I1].
+      destruct k as [| |d], ov as [x|]; cbn [enc_field presence is_some] in *; try discriminate Ef.
+      * destruct (enc m ft x); cbn [bind] in Ef; try discriminate Ef. injection Ef as <- _. reflexivity.
+      * destruct (enc m ft x); cbn [bind] in Ef; try discriminate Ef. injection Ef as <- _. reflexivity.
+      * injection Ef as <- _. reflexivity.
+      * destruct (val_eqb d x); [injection Ef as <- _; reflexivity|].
+        destruct (enc m ft x); cbn [bind] in Ef; try discriminate Ef. injection Ef as <- _. reflexivity.
+    + constructor; [|exact I2]. cbn [fst snd]. intros ->. eapply enc_field_absent. exact Ef.
+Qed.
+
+(* the bits written for a SEQUENCE are exactly the assembled reference bits: extension bit (if
+   any), one presence bit per OPTIONAL/DEFAULT root component in order, root components, then
+   the extension part *)
+Theorem seq_preamble m fs so fc ea vals w w' :
+  wf_ty (TSeq fs so fc ea) -> wst_wf w -> w_scope w = None ->
+  write_ty m (TSeq fs so fc ea) (VSeq vals) w = Ok w' ->
+  exists fes bs, enc_fields m fs vals = Ok fes /\ map fst fes = presences fs vals /\
+    seq_assemble m fs fes ea = Ok bs /\ w_bits w' = w_bits w ++ bs /\
+    N.of_nat (length (flags_of (firstn (root_len fs ea) fs) (firstn (root_len fs ea) fes))) = so.
+Proof.
+  intros Hty Hw Hs H. pose proof (write_enc m _ Hty (VSeq vals) w Hw Hs) as S. unfold wsim in S.
+  rewrite enc_seq_eq in S. destruct (enc_fields m fs vals) as [fes| |] eqn:Ef; cbn [bind] in S;
+    try (rewrite H in S; discriminate S).
+  destruct (seq_assemble m fs fes ea) as [bs| |] eqn:Ea; try (rewrite H in S; discriminate S).
+  rewrite S in H. injection H as <-. exists fes, bs.
+  split; [reflexivity|]. split; [apply (enc_fields_presence m fs vals fes Ef)|]. split; [exact Ea|].
+  split; [apply w_bits_append|].
+  apply wf_ty_seq in Hty. destruct Hty as [(Hfc & _ & Hea & Hso) _].
+  pose proof (enc_fields_length m fs vals fes Ef) as Hl.
+  rewrite flags_of_length; [symmetry; exact Hso|].
+  rewrite !firstn_length. lia.
+Qed.
+
+Lemma ext_part_bit m afs afe eb xp : ext_part m afs afe = Ok (eb, xp) ->
+  eb = existsb fst afe /\ (eb = false -> xp = []).
+Proof.
+  unfold ext_part. destruct afe as [|[p1 b1] rest]; [intros H; injection H as <- <-; split; reflexivity|].
+  destruct p1.
+  - destruct (w_normally_small m _); cbn [bind]; try discriminate.
+    destruct (add_payloads m afs _); cbn [bind]; try discriminate.
+    intros H. injection H as <- <-. split; [reflexivity|discriminate].
+  - cbn [existsb fst orb]. destruct (existsb fst rest); [discriminate|].
+    intros H. injection H as <- <-. split; reflexivity.
+Qed.
+
+Lemma ext_part_refusal m afs afe e : ext_part m afs afe = Err e ->
+  Forall (fun fe => bl (snd fe) < two63) afe -> N.of_nat (length afe) < two64 ->
+  e = E_EXT_INCONSISTENT /\ exists b rest, afe = (false, b) :: rest /\ existsb fst rest = true.
+Proof.
+  unfold ext_part. destruct afe as [|[p1 b1] rest]; [discriminate|]. intros H Hb Hl.
+  destruct p1.
+  - exfalso. rewrite normally_small_write in H by (cbn [length] in *; lia). cbn [bind] in H.
+    assert (Hap : forall fs fes, Forall (fun fe => bl (snd fe) < two63) fes -> exists ap, add_payloads m fs fes = Ok ap).
+    { clear. induction fs as [|[k ft] fs IH]; intros [|[p b] fes] F; try (eexists; reflexivity).
+      apply Forall_cons_iff in F. destruct F as [Hb F]. cbn [snd] in Hb. cbn [add_payloads].
+      destruct (IH fes F) as [r ->].
+      destruct (p && wraps k ft); [rewrite wrap_open_x by exact Hb|]; cbn [bind]; eexists; reflexivity. }
+    destruct (Hap afs _ Hb) as [ap Eap]. rewrite Eap in H. discriminate H.
+  - destruct (existsb fst rest) eqn:Ee; [|discriminate H]. injection H as <-.
+    split; [reflexivity|]. exists b1, rest. split; [reflexivity|exact Ee].
 Qed.
